@@ -1,6 +1,1634 @@
 import PyCliffordModel.Proofs.Rotate
+import PyCliffordModel.Proofs.Z2Inv
 import PyCliffordModel.Spec.Tableau
-/-! # Proofs/Tableau — helper lemmas for C05 (Gram pattern under the measurement pivot update and swaps) -/
+/-! # Proofs/Tableau — helper lemmas for C05 (Gram pattern under the measurement pivot update and swaps)
+
+Layout:
+* §1 `rowAt`, `gAt` and the slot operations `setG`, `setP`, `swapG` row by row;
+* §2 the Gram pattern `J`, `GramF` on row functions, `TabInv` in row-function form;
+* §3 function level: the pivot update `pivF` keeps the Gram pattern (`pivF_gram`), slot permutations that
+  respect the pairing keep it (`GramF.comp`, `J_swp_partner`, `J_swp_two_pairs`);
+* §4 the scan: `scanAux_some`, `scanAux_none_clean`, `scanAux_none_first`, `scan_pre`, `scan_first`,
+  `scan_clean`, `scan_cases`, `findAnti_some`, `findAnti_none`;
+* §5 `install` row by row (`install_spec`) and the combined Gram statement (`install_gram`);
+* §6 `measure1`, `project1`, `postselect` row by row (`measure1_cases`, `project1_cases`, `postselect_cases`,
+  `pivotState`, `IsMeasPivot`);
+* §7 constructors and rotations (`idMap_valid`, `rowAt_mapToState`, `toState_inv`, `rotate_inv`);
+* §8 symplectic nondegeneracy (`exists_dependency`: `m + 1` vectors with `m` coordinates over GF(2) are
+  dependent; `gram_nondegenerate`);
+* §9 the deterministic branch (`scanAcc_acq`, `scanAcc_g_eq_obs`, `measure1_total`).
+-/
 namespace PC
+
+/-! ## §1 rows of a list, slot operations -/
+
+/-- the string in slot `j` -/
+def gAt (T : List Pauli) (j : Nat) : PStr := (rowAt T j).g
+
+theorem rowAt_eq_getElem (T : List Pauli) (j : Nat) (h : j < T.length) : rowAt T j = T[j] := by
+  simp [rowAt, List.getD_eq_getElem?_getD, List.getElem?_eq_getElem h]
+
+theorem rowAt_of_le (T : List Pauli) (j : Nat) (h : T.length ≤ j) : rowAt T j = ⟨[], 0⟩ := by
+  simp [rowAt, List.getD_eq_getElem?_getD, List.getElem?_eq_none h]
+
+theorem rowAt_mem (T : List Pauli) (j : Nat) (h : j < T.length) : rowAt T j ∈ T := by
+  rw [rowAt_eq_getElem T j h]; exact List.getElem_mem h
+
+theorem exists_rowAt_of_mem (T : List Pauli) (R : Pauli) (h : R ∈ T) : ∃ j, j < T.length ∧ rowAt T j = R := by
+  obtain ⟨i, hi, he⟩ := List.mem_iff_getElem.1 h
+  exact ⟨i, hi, by rw [rowAt_eq_getElem T i hi, he]⟩
+
+theorem rowAt_cons_zero (R : Pauli) (T : List Pauli) : rowAt (R :: T) 0 = R := rfl
+theorem rowAt_cons_succ (R : Pauli) (T : List Pauli) (j : Nat) : rowAt (R :: T) (j + 1) = rowAt T j := by
+  simp [rowAt]
+
+/-- two lists of rows of the same length with the same rows are equal -/
+theorem ext_rowAt (A B : List Pauli) (hl : A.length = B.length)
+    (h : ∀ j, j < A.length → rowAt A j = rowAt B j) : A = B := by
+  apply List.ext_getElem hl
+  intro i h1 h2
+  have := h i h1
+  rwa [rowAt_eq_getElem A i h1, rowAt_eq_getElem B i h2] at this
+
+theorem rowAt_map (f : Pauli → Pauli) (T : List Pauli) (j : Nat) (h : j < T.length) :
+    rowAt (T.map f) j = f (rowAt T j) := by
+  rw [rowAt_eq_getElem _ j (by simpa using h), rowAt_eq_getElem T j h]; simp
+
+theorem rowAt_mapIdx (f : Nat → Pauli → Pauli) (T : List Pauli) (j : Nat) (h : j < T.length) :
+    rowAt (T.mapIdx f) j = f j (rowAt T j) := by
+  rw [rowAt_eq_getElem _ j (by simpa using h), rowAt_eq_getElem T j h]; simp
+
+theorem length_setG (T : List Pauli) (i : Nat) (g : PStr) : (setG T i g).length = T.length := by
+  simp [setG]
+theorem length_setP (T : List Pauli) (i : Nat) (p : Int) : (setP T i p).length = T.length := by
+  simp [setP]
+theorem length_swapG (T : List Pauli) (i j : Nat) : (swapG T i j).length = T.length := by
+  simp [swapG, length_setG]
+
+theorem rowAt_set (T : List Pauli) (i k : Nat) (R : Pauli) (hi : i < T.length) :
+    rowAt (T.set i R) k = if k = i then R else rowAt T k := by
+  simp only [rowAt, List.getD_eq_getElem?_getD, List.getElem?_set]
+  by_cases h : i = k
+  · subst h; simp [hi]
+  · have h' : ¬ k = i := fun e => h e.symm
+    simp [h, h']
+
+theorem rowAt_set_of_le (T : List Pauli) (i : Nat) (R : Pauli) (hi : T.length ≤ i) : T.set i R = T := by
+  exact List.set_eq_of_length_le hi
+
+/-- `setG` writes the string of slot `i` … -/
+theorem rowAt_setG_g (T : List Pauli) (i k : Nat) (g : PStr) (hi : i < T.length) :
+    (rowAt (setG T i g) k).g = if k = i then g else (rowAt T k).g := by
+  unfold setG; rw [rowAt_set T i k _ hi]; split <;> rfl
+/-- … and no phase -/
+theorem rowAt_setG_p (T : List Pauli) (i k : Nat) (g : PStr) : (rowAt (setG T i g) k).p = (rowAt T k).p := by
+  by_cases hi : i < T.length
+  · unfold setG; rw [rowAt_set T i k _ hi]; split
+    · next h => subst h; rfl
+    · rfl
+  · unfold setG; rw [rowAt_set_of_le T i _ (by omega)]
+
+theorem gAt_setG (T : List Pauli) (i k : Nat) (g : PStr) (hi : i < T.length) :
+    gAt (setG T i g) k = if k = i then g else gAt T k := rowAt_setG_g T i k g hi
+
+/-- `setP` writes the phase of slot `i` … -/
+theorem rowAt_setP_p (T : List Pauli) (i k : Nat) (p : Int) (hi : i < T.length) :
+    (rowAt (setP T i p) k).p = if k = i then p else (rowAt T k).p := by
+  unfold setP; rw [rowAt_set T i k _ hi]; split <;> rfl
+/-- … and no string -/
+theorem rowAt_setP_g (T : List Pauli) (i k : Nat) (p : Int) : (rowAt (setP T i p) k).g = (rowAt T k).g := by
+  by_cases hi : i < T.length
+  · unfold setP; rw [rowAt_set T i k _ hi]; split
+    · next h => subst h; rfl
+    · rfl
+  · unfold setP; rw [rowAt_set_of_le T i _ (by omega)]
+
+theorem gAt_setP (T : List Pauli) (i k : Nat) (p : Int) : gAt (setP T i p) k = gAt T k := rowAt_setP_g T i k p
+
+/-- the transposition of the slots `a`, `b` -/
+def swp (a b k : Nat) : Nat := if k = a then b else if k = b then a else k
+
+theorem swp_lt (a b k m : Nat) (ha : a < m) (hb : b < m) (hk : k < m) : swp a b k < m := by
+  unfold swp; split
+  · exact hb
+  · split
+    · exact ha
+    · exact hk
+
+/-- `swapG` exchanges the strings of two slots … -/
+theorem gAt_swapG (T : List Pauli) (i j k : Nat) (hi : i < T.length) (hj : j < T.length) :
+    gAt (swapG T i j) k = gAt T (swp i j k) := by
+  unfold swapG gAt
+  simp only
+  rw [rowAt_setG_g _ j k _ (by rw [length_setG]; exact hj), rowAt_setG_g _ i k _ hi]
+  unfold swp
+  by_cases h1 : k = j
+  · subst h1
+    by_cases h2 : k = i
+    · subst h2; simp
+    · simp [h2]
+  · by_cases h2 : k = i
+    · subst h2; simp [h1]
+    · simp [h1, h2]
+/-- … and no phases -/
+theorem rowAt_swapG_p (T : List Pauli) (i j k : Nat) : (rowAt (swapG T i j) k).p = (rowAt T k).p := by
+  unfold swapG; simp only; rw [rowAt_setG_p, rowAt_setG_p]
+
+/-! ## §2 the Gram pattern -/
+
+/-- the Gram pattern of a tableau: slot `i` anticommutes exactly with slot `i ± n` -/
+def J (n i j : Nat) : Int := if i + n = j ∨ j + n = i then 1 else 0
+
+theorem J_symm (n i j : Nat) : J n i j = J n j i := by
+  unfold J; split <;> split <;> first | rfl | omega
+
+theorem J_self (n i : Nat) (hn : 0 < n) : J n i i = 0 := by
+  unfold J; split
+  · omega
+  · rfl
+
+/-- a row function has `2n` rows on `n` qubits with the Gram pattern `J` -/
+def GramF (n : Nat) (f : Nat → PStr) : Prop :=
+  (∀ i, i < 2 * n → (f i).length = n) ∧
+  ∀ i j, i < 2 * n → j < 2 * n → acq (f i) (f j) = J n i j
+
+theorem GramF.congr {n : Nat} {f g : Nat → PStr} (h : GramF n f) (he : ∀ k, k < 2 * n → g k = f k) :
+    GramF n g := by
+  refine ⟨fun i hi => by rw [he i hi]; exact h.1 i hi, fun i j hi hj => ?_⟩
+  rw [he i hi, he j hj]; exact h.2 i j hi hj
+
+/-- a permutation of the slots that respects the pairing keeps the Gram pattern -/
+theorem GramF.comp {n : Nat} {f : Nat → PStr} (h : GramF n f) (σ : Nat → Nat)
+    (hσ : ∀ k, k < 2 * n → σ k < 2 * n)
+    (hJ : ∀ i j, i < 2 * n → j < 2 * n → J n (σ i) (σ j) = J n i j) : GramF n (fun k => f (σ k)) := by
+  refine ⟨fun i hi => h.1 _ (hσ i hi), fun i j hi hj => ?_⟩
+  rw [h.2 _ _ (hσ i hi) (hσ j hj), hJ i j hi hj]
+
+/-- `TabInv` in row-function form -/
+theorem tabInv_iff (st : State) (n : Nat) :
+    TabInv st n ↔ st.rows.length = 2 * n ∧ st.r ≤ n ∧ GramF n (gAt st.rows) ∧
+      ∀ i, st.r ≤ i → i < n → (rowAt st.rows i).p % 2 = 0 := by
+  constructor
+  · rintro ⟨hl, hr, hlen, hg, hh⟩
+    refine ⟨hl, hr, ⟨fun i hi => hlen _ (rowAt_mem _ i (by omega)), fun i j hi hj => ?_⟩, hh⟩
+    exact hg i j hi hj
+  · rintro ⟨hl, hr, ⟨hlen, hg⟩, hh⟩
+    refine ⟨hl, hr, fun R hR => ?_, fun i j hi hj => hg i j hi hj, hh⟩
+    obtain ⟨j, hj, rfl⟩ := exists_rowAt_of_mem _ R hR
+    exact hlen j (by omega)
+
+theorem TabInv.gram {st : State} {n : Nat} (h : TabInv st n) : GramF n (gAt st.rows) :=
+  ((tabInv_iff st n).1 h).2.2.1
+
+theorem TabInv.N_eq {st : State} {n : Nat} (h : TabInv st n) : st.N = n := by
+  unfold State.N; rw [h.1]; omega
+
+/-! ## §3 function level: pivot update and slot permutations -/
+
+/-- the partner slot `(p + n) % 2n` -/
+def partner (n p : Nat) : Nat := (p + n) % (2 * n)
+
+theorem partner_of_lt (n p : Nat) (h : p < n) : partner n p = p + n := by
+  unfold partner; exact Nat.mod_eq_of_lt (by omega)
+
+theorem partner_of_ge (n p : Nat) (h1 : n ≤ p) (h2 : p < 2 * n) : partner n p = p - n := by
+  unfold partner
+  have : p + n = (p - n) + 2 * n := by omega
+  rw [this, Nat.add_mod_right]; exact Nat.mod_eq_of_lt (by omega)
+
+/-- linear description of the partner, for `omega` -/
+theorem partner_cases (n p : Nat) (hp : p < 2 * n) :
+    (p < n ∧ partner n p = p + n) ∨ (n ≤ p ∧ partner n p + n = p) := by
+  by_cases h : p < n
+  · exact Or.inl ⟨h, partner_of_lt n p h⟩
+  · have := partner_of_ge n p (by omega) hp
+    exact Or.inr ⟨by omega, by omega⟩
+
+theorem partner_lt (n p : Nat) (hp : p < 2 * n) : partner n p < 2 * n := by
+  rcases partner_cases n p hp with h | h <;> omega
+
+theorem J_eq_one_iff (n i j : Nat) (hi : i < 2 * n) (hj : j < 2 * n) : J n i j = 1 ↔ j = partner n i := by
+  rcases partner_cases n i hi with h | h <;> unfold J <;> split <;> constructor <;> intro h' <;> omega
+
+theorem J_of_ne_partner (n i j : Nat) (hi : i < 2 * n) (hj : j < 2 * n) (h : j ≠ partner n i) : J n i j = 0 := by
+  rcases partner_cases n i hi with h' | h' <;> unfold J <;> split <;> omega
+
+theorem J_partner (n i : Nat) (hi : i < 2 * n) : J n i (partner n i) = 1 :=
+  (J_eq_one_iff n i _ hi (partner_lt n i hi)).2 rfl
+
+/-- rows after the pivot update with pivot slot `p` (either half), observable `o`:
+    slot `p` holds `o`, the partner slot holds the old pivot string, every other row that anticommutes with
+    `o` has the pivot string added -/
+def pivF (n p : Nat) (o : PStr) (f : Nat → PStr) : Nat → PStr := fun j =>
+  if j = p then o else if j = partner n p then f p
+  else if anti (f j) o then xorS (f j) (f p) else f j
+
+theorem pivF_pivot (n p : Nat) (o : PStr) (f : Nat → PStr) : pivF n p o f p = o := by simp [pivF]
+
+theorem pivF_partner (n p : Nat) (o : PStr) (f : Nat → PStr) (hp : p < 2 * n) :
+    pivF n p o f (partner n p) = f p := by
+  have : partner n p ≠ p := by rcases partner_cases n p hp with h | h <;> omega
+  simp [pivF, this]
+
+theorem pivF_other (n p : Nat) (o : PStr) (f : Nat → PStr) (j : Nat) (h1 : j ≠ p) (h2 : j ≠ partner n p) :
+    pivF n p o f j = if anti (f j) o then xorS (f j) (f p) else f j := by simp [pivF, h1, h2]
+
+/-- **the pivot update keeps the Gram pattern** (pivot in either half of the tableau) -/
+theorem pivF_gram (n p : Nat) (o : PStr) (f : Nat → PStr) (h : GramF n f) (hp : p < 2 * n)
+    (ho : o.length = n) (hanti : acq (f p) o = 1) : GramF n (pivF n p o f) := by
+  obtain ⟨hlen, hg⟩ := h
+  have hn : 0 < n := by omega
+  have hq := partner_lt n p hp
+  have hqp : partner n p ≠ p := by rcases partner_cases n p hp with h | h <;> omega
+  have hpl := hlen p hp
+  -- the rows outside the pivot pair
+  have key : ∀ i, i < 2 * n → i ≠ p → i ≠ partner n p →
+      (pivF n p o f i).length = n ∧ acq (pivF n p o f i) o = 0 ∧ acq (pivF n p o f i) (f p) = 0 ∧
+      ∀ j, j < 2 * n → j ≠ p → j ≠ partner n p → acq (pivF n p o f i) (f j) = J n i j := by
+    intro i hi hip hiq
+    have hil := hlen i hi
+    have hipg : acq (f i) (f p) = 0 := by
+      rw [hg i p hi hp, J_symm]; exact J_of_ne_partner n p i hp hi hiq
+    rw [pivF_other n p o f i hip hiq]
+    rcases acq_bit (f i) o with ha | ha
+    · rw [(anti_eq_false_iff _ _).2 ha]
+      exact ⟨hil, ha, hipg, fun j hj _ _ => hg i j hi hj⟩
+    · rw [(anti_iff _ _).2 ha]
+      simp only [if_true]
+      refine ⟨by rw [length_xorS_eq _ _ (by omega)]; exact hil, ?_, ?_, ?_⟩
+      · rw [acq_xorS_left _ _ _ (by omega), ha, hanti]; rfl
+      · rw [acq_xorS_left _ _ _ (by omega), hipg, acq_self]; rfl
+      · intro j hj hjp hjq
+        have hpj : acq (f p) (f j) = 0 := by
+          rw [hg p j hp hj]; exact J_of_ne_partner n p j hp hj hjq
+        rw [acq_xorS_left _ _ _ (by omega), hpj, hg i j hi hj]
+        have := hg i j hi hj
+        have hb := acq_bit (f i) (f j)
+        omega
+  have Jp : ∀ j, j < 2 * n → j ≠ partner n p → J n p j = 0 := fun j hj' hj => J_of_ne_partner n p j hp hj' hj
+  have Jq : ∀ j, j < 2 * n → j ≠ p → J n (partner n p) j = 0 := by
+    intro j hj hjp
+    rw [J_symm]
+    rcases acq_bit (f j) (f (partner n p)) with _ | _
+    all_goals
+      rcases partner_cases n p hp with h | h <;> unfold J <;> split <;> omega
+  refine ⟨fun i hi => ?_, fun i j hi hj => ?_⟩
+  · by_cases hip : i = p
+    · subst hip; rw [pivF_pivot]; exact ho
+    · by_cases hiq : i = partner n p
+      · subst hiq; rw [pivF_partner n p o f hp]; exact hpl
+      · exact (key i hi hip hiq).1
+  · by_cases hip : i = p
+    · subst hip
+      rw [pivF_pivot]
+      by_cases hjp : j = i
+      · subst hjp; rw [pivF_pivot, acq_self, J_self n j hn]
+      · by_cases hjq : j = partner n i
+        · subst hjq; rw [pivF_partner n i o f hp, acq_symm, hanti, J_partner n i hp]
+        · rw [acq_symm, (key j hj hjp hjq).2.1, Jp j hj hjq]
+    · by_cases hiq : i = partner n p
+      · subst hiq
+        rw [pivF_partner n p o f hp]
+        by_cases hjp : j = p
+        · subst hjp; rw [pivF_pivot, hanti, J_symm, J_partner n j hp]
+        · by_cases hjq : j = partner n p
+          · subst hjq; rw [pivF_partner n p o f hp, acq_self, J_self n _ hn]
+          · rw [acq_symm, (key j hj hjp hjq).2.2.1, Jq j hj hjp]
+      · have ki := key i hi hip hiq
+        by_cases hjp : j = p
+        · subst hjp; rw [pivF_pivot, ki.2.1, J_symm, Jp i hi hiq]
+        · by_cases hjq : j = partner n p
+          · subst hjq; rw [pivF_partner n p o f hp, ki.2.2.1, J_symm, Jq i hi hip]
+          · rw [pivF_other n p o f j hjp hjq]
+            rcases acq_bit (f j) o with ha | ha
+            · rw [(anti_eq_false_iff _ _).2 ha]; exact ki.2.2.2 j hj hjp hjq
+            · rw [(anti_iff _ _).2 ha]
+              simp only [if_true]
+              rw [acq_xorS_right _ _ _ (by rw [hlen j hj, hpl]), ki.2.2.2 j hj hjp hjq, ki.2.2.1]
+              have := ki.2.2.2 j hj hjp hjq
+              have hb := acq_bit (pivF n p o f i) (f j)
+              omega
+
+theorem J_bit (n i j : Nat) : J n i j = 0 ∨ J n i j = 1 := by
+  unfold J; split
+  · exact Or.inr rfl
+  · exact Or.inl rfl
+
+theorem partner_partner (n k : Nat) (hk : k < 2 * n) : partner n (partner n k) = k := by
+  have h1 := partner_cases n k hk
+  have h2 := partner_cases n _ (partner_lt n k hk)
+  omega
+
+theorem partner_inj (n i j : Nat) (hi : i < 2 * n) (hj : j < 2 * n) (h : partner n i = partner n j) : i = j := by
+  rw [← partner_partner n i hi, ← partner_partner n j hj, h]
+
+theorem swp_left (a b : Nat) : swp a b a = b := by simp [swp]
+theorem swp_right (a b : Nat) : swp a b b = a := by
+  unfold swp; split
+  · next h => exact h
+  · simp
+theorem swp_other (a b k : Nat) (h1 : k ≠ a) (h2 : k ≠ b) : swp a b k = k := by simp [swp, h1, h2]
+
+theorem swp_symm (a b k : Nat) : swp a b k = swp b a k := by
+  by_cases h1 : k = a
+  · subst h1; rw [swp_left, swp_right]
+  · by_cases h2 : k = b
+    · subst h2; rw [swp_left, swp_right]
+    · rw [swp_other _ _ _ h1 h2, swp_other _ _ _ h2 h1]
+
+theorem swp_swp (a b k : Nat) : swp a b (swp a b k) = k := by
+  by_cases h1 : k = a
+  · subst h1; rw [swp_left, swp_right]
+  · by_cases h2 : k = b
+    · subst h2; rw [swp_right, swp_left]
+    · rw [swp_other _ _ _ h1 h2, swp_other _ _ _ h1 h2]
+
+/-- transpositions of disjoint pairs commute -/
+theorem swp_comm_disj (a c b d k : Nat) (h1 : a ≠ b) (h2 : a ≠ d) (h3 : c ≠ b) (h4 : c ≠ d) :
+    swp a c (swp b d k) = swp b d (swp a c k) := by
+  by_cases k1 : k = a
+  · subst k1; rw [swp_other b d k h1 h2, swp_left, swp_other b d c h3 h4]
+  · by_cases k2 : k = c
+    · subst k2; rw [swp_other b d k h3 h4, swp_right, swp_other b d a h1 h2]
+    · rw [swp_other a c k k1 k2]
+      by_cases k3 : k = b
+      · subst k3; rw [swp_left, swp_other a c d (Ne.symm h2) (Ne.symm h4)]
+      · by_cases k4 : k = d
+        · subst k4; rw [swp_right, swp_other a c b (Ne.symm h1) (Ne.symm h3)]
+        · rw [swp_other b d k k3 k4, swp_other a c k k1 k2]
+
+/-- the pairing conjugates a transposition into the transposition of the partners -/
+theorem partner_swp (n a c k : Nat) (ha : a < 2 * n) (hc : c < 2 * n) (hk : k < 2 * n) :
+    partner n (swp a c k) = swp (partner n a) (partner n c) (partner n k) := by
+  by_cases k1 : k = a
+  · subst k1; rw [swp_left, swp_left]
+  · by_cases k2 : k = c
+    · subst k2; rw [swp_right, swp_right]
+    · rw [swp_other a c k k1 k2, swp_other]
+      · exact fun h => k1 (partner_inj n k a hk ha h)
+      · exact fun h => k2 (partner_inj n k c hk hc h)
+
+/-- a slot permutation that commutes with the pairing keeps the pattern `J` -/
+theorem J_perm (n : Nat) (σ : Nat → Nat) (hσ : ∀ k, k < 2 * n → σ k < 2 * n)
+    (hinj : ∀ i j, i < 2 * n → j < 2 * n → σ i = σ j → i = j)
+    (hcomm : ∀ k, k < 2 * n → partner n (σ k) = σ (partner n k))
+    (i j : Nat) (hi : i < 2 * n) (hj : j < 2 * n) : J n (σ i) (σ j) = J n i j := by
+  have h1 := J_eq_one_iff n (σ i) (σ j) (hσ i hi) (hσ j hj)
+  have h2 := J_eq_one_iff n i j hi hj
+  have h3 : σ j = partner n (σ i) ↔ j = partner n i := by
+    rw [hcomm i hi]
+    constructor
+    · exact hinj _ _ hj (partner_lt n i hi)
+    · intro h; rw [h]
+  rcases J_bit n (σ i) (σ j) with a | a <;> rcases J_bit n i j with b | b
+  · rw [a, b]
+  · exact absurd (h1.2 (h3.2 (h2.1 b))) (by omega)
+  · exact absurd (h2.2 (h3.1 (h1.1 a))) (by omega)
+  · rw [a, b]
+
+theorem J_swp_partner (n a : Nat) (ha : a < 2 * n) (i j : Nat) (hi : i < 2 * n) (hj : j < 2 * n) :
+    J n (swp a (partner n a) i) (swp a (partner n a) j) = J n i j := by
+  have hb := partner_lt n a ha
+  apply J_perm n (swp a (partner n a)) (fun k hk => swp_lt _ _ _ _ ha hb hk) _ _ i j hi hj
+  · intro x y _ _ h
+    rw [← swp_swp a (partner n a) x, h, swp_swp]
+  · intro k hk
+    rw [partner_swp n a _ k ha hb hk, partner_partner n a ha, swp_symm]
+
+theorem J_swp_two_pairs (n a c : Nat) (ha : a < 2 * n) (hc : c < 2 * n) (hcb : c ≠ partner n a)
+    (i j : Nat) (hi : i < 2 * n) (hj : j < 2 * n) :
+    J n (swp a c (swp (partner n a) (partner n c) i)) (swp a c (swp (partner n a) (partner n c) j)) = J n i j := by
+  have hb := partner_lt n a ha
+  have hd := partner_lt n c hc
+  have h1 : a ≠ partner n a := by rcases partner_cases n a ha with h | h <;> omega
+  have h4 : c ≠ partner n c := by rcases partner_cases n c hc with h | h <;> omega
+  have h2 : a ≠ partner n c := fun h => hcb (by rw [h, partner_partner n c hc])
+  apply J_perm n (fun k => swp a c (swp (partner n a) (partner n c) k))
+    (fun k hk => swp_lt _ _ _ _ ha hc (swp_lt _ _ _ _ hb hd hk)) _ _ i j hi hj
+  · intro x y _ _ h
+    have h' := congrArg (swp a c) h
+    simp only [swp_swp] at h'
+    rw [← swp_swp (partner n a) (partner n c) x, h', swp_swp]
+  · intro k hk
+    rw [partner_swp n a c _ ha hc (swp_lt _ _ _ _ hb hd hk), partner_swp n _ _ k hb hd hk,
+      partner_partner n a ha, partner_partner n c hc]
+    exact (swp_comm_disj a c (partner n a) (partner n c) _ h1 h2 hcb h4).symm
+
+/-! ## §4 the scan -/
+
+theorem anti_nil_left (g : PStr) : anti [] g = false := by
+  rw [anti_eq_false_iff]; unfold acq; rw [acqSum_nil_left]; rfl
+
+theorem anti_rowAt_lt (T : List Pauli) (obs : PStr) (j : Nat) (h : anti (rowAt T j).g obs = true) :
+    j < T.length := by
+  by_cases hj : j < T.length
+  · exact hj
+  · rw [rowAt_of_le T j (by omega), anti_nil_left] at h; exact absurd h (by simp)
+
+/-- the row the scan writes for a non-pivot row that anticommutes with the observable: the pivot string is
+    added; the phase of the product is tracked for stabilizer rows when `ph` -/
+def pivRow (N : Nat) (ph : Bool) (rp : Pauli) (j : Nat) (row : Pauli) : Pauli :=
+  ⟨xorS row.g rp.g, if ph && j < N then (row.p + rp.p + ipow row.g rp.g) % 4 else row.p⟩
+
+/-- what the scan does to row `j` when the pivot is `(p, rp)` -/
+def updRow (obs : PStr) (N : Nat) (ph : Bool) (p : Nat) (rp : Pauli) (j : Nat) (row : Pauli) : Pauli :=
+  if j ≠ p ∧ anti row.g obs = true then pivRow N ph rp j row else row
+
+theorem updRow_pivot (obs : PStr) (N : Nat) (ph : Bool) (p : Nat) (rp row : Pauli) :
+    updRow obs N ph p rp p row = row := by simp [updRow]
+
+theorem updRow_of_comm (obs : PStr) (N : Nat) (ph : Bool) (p : Nat) (rp : Pauli) (j : Nat) (row : Pauli)
+    (h : anti row.g obs = false) : updRow obs N ph p rp j row = row := by simp [updRow, h]
+
+theorem updRow_of_anti (obs : PStr) (N : Nat) (ph : Bool) (p : Nat) (rp : Pauli) (j : Nat) (row : Pauli)
+    (hj : j ≠ p) (h : anti row.g obs = true) : updRow obs N ph p rp j row = pivRow N ph rp j row := by
+  simp [updRow, h, hj]
+
+theorem updRow_g (obs : PStr) (N : Nat) (ph : Bool) (p : Nat) (rp : Pauli) (j : Nat) (row : Pauli) :
+    (updRow obs N ph p rp j row).g = if j ≠ p ∧ anti row.g obs = true then xorS row.g rp.g else row.g := by
+  unfold updRow; split <;> rfl
+
+/-- without phase tracking, or outside the stabilizer half, the scan keeps the phase of the slot -/
+theorem updRow_p_keep (obs : PStr) (N : Nat) (ph : Bool) (p : Nat) (rp : Pauli) (j : Nat) (row : Pauli)
+    (h : ph = false ∨ N ≤ j) : (updRow obs N ph p rp j row).p = row.p := by
+  unfold updRow pivRow; split
+  · rcases h with h | h
+    · simp [h]
+    · have : ¬ j < N := by omega
+      simp [this]
+  · rfl
+
+/-- a Hermitian row stays Hermitian when a commuting Hermitian pivot row is multiplied in -/
+theorem updRow_p_even (obs : PStr) (N : Nat) (ph : Bool) (p : Nat) (rp : Pauli) (j : Nat) (row : Pauli)
+    (h1 : row.p % 2 = 0) (h2 : rp.p % 2 = 0) (h3 : acq row.g rp.g = 0) :
+    (updRow obs N ph p rp j row).p % 2 = 0 := by
+  have hpar := ipow_parity row.g rp.g
+  unfold updRow pivRow; split
+  · simp only; split
+    · omega
+    · exact h1
+  · exact h1
+
+/-- `f j r₀ :: f (j+1) r₁ :: …` -/
+def mapFrom (f : Nat → Pauli → Pauli) : Nat → List Pauli → List Pauli
+  | _, [] => []
+  | j, r :: rs => f j r :: mapFrom f (j + 1) rs
+
+theorem length_mapFrom (f : Nat → Pauli → Pauli) (j : Nat) (l : List Pauli) :
+    (mapFrom f j l).length = l.length := by
+  induction l generalizing j with
+  | nil => rfl
+  | cons r rs ih => simp [mapFrom, ih]
+
+theorem rowAt_mapFrom (f : Nat → Pauli → Pauli) (j : Nat) (l : List Pauli) (i : Nat) (hi : i < l.length) :
+    rowAt (mapFrom f j l) i = f (j + i) (rowAt l i) := by
+  induction l generalizing j i with
+  | nil => simp at hi
+  | cons r rs ih =>
+    cases i with
+    | zero => simp [mapFrom, rowAt_cons_zero]
+    | succ i =>
+      simp only [mapFrom, rowAt_cons_succ]
+      rw [ih (j + 1) i (by simpa using hi)]
+      congr 1; omega
+
+theorem mapFrom_zero (f : Nat → Pauli → Pauli) (l : List Pauli) : mapFrom f 0 l = l.mapIdx f := by
+  apply ext_rowAt
+  · rw [length_mapFrom, List.length_mapIdx]
+  · intro i hi
+    rw [length_mapFrom] at hi
+    rw [rowAt_mapFrom f 0 l i hi, rowAt_mapIdx f l i hi, Nat.zero_add]
+
+/-- the accumulator of the scan when no pivot is found: the product of the partners `j - N` of the rows `j`
+    that anticommute with the observable (also the loop of `stabilizer_expect`) -/
+def scanAcc (T0 : List Pauli) (obs : PStr) (N : Nat) : Nat → List Pauli → Pauli → Pauli
+  | _, [], acc => acc
+  | j, row :: rest, acc =>
+    scanAcc T0 obs N (j + 1) rest (if anti row.g obs then mul acc (rowAt T0 (j - N)) else acc)
+
+/-- the scan once the pivot is known: rows are independent of each other -/
+theorem scanAux_some (T0 : List Pauli) (obs : PStr) (N lim : Nat) (skip : Option Nat) (ph : Bool)
+    (j : Nat) (rows : List Pauli) (p : Nat) (rp acc : Pauli) :
+    scanAux T0 obs N lim skip ph j rows (some (p, rp)) acc =
+      (mapFrom (fun i row => if (skip != some i) && anti row.g obs then pivRow N ph rp i row else row) j rows,
+        some (p, rp), acc) := by
+  induction rows generalizing j with
+  | nil => rfl
+  | cons row rest ih =>
+    simp only [scanAux, mapFrom]
+    rw [ih (j + 1)]
+    split <;> rfl
+
+/-- no pivot and no anticommuting row below `lim`: nothing is written, the partners are accumulated -/
+theorem scanAux_none_clean (T0 : List Pauli) (obs : PStr) (N lim : Nat) (ph : Bool)
+    (j : Nat) (rows : List Pauli) (acc : Pauli)
+    (h : ∀ i, j + i < lim → anti (rowAt rows i).g obs = false) :
+    scanAux T0 obs N lim none ph j rows none acc = (rows, none, scanAcc T0 obs N j rows acc) := by
+  induction rows generalizing j acc with
+  | nil => rfl
+  | cons row rest ih =>
+    have h' : ∀ i, j + 1 + i < lim → anti (rowAt rest i).g obs = false := by
+      intro i hi
+      have := h (i + 1) (by omega)
+      rwa [rowAt_cons_succ] at this
+    simp only [scanAux, scanAcc]
+    by_cases ha : anti row.g obs = true
+    · have hj : ¬ j < lim := by
+        intro hj
+        have := h 0 (by omega)
+        rw [rowAt_cons_zero] at this
+        rw [this] at ha; exact absurd ha (by simp)
+      simp only [ha, hj]
+      rw [ih (j + 1) _ h']
+      simp [mul]
+    · have ha' : anti row.g obs = false := by simpa using ha
+      simp only [ha', Bool.and_false, Bool.false_eq_true, ↓reduceIte]
+      rw [ih (j + 1) acc h']
+
+/-- no pivot yet, first anticommuting row at offset `i0`, below `lim`: it becomes the pivot -/
+theorem scanAux_none_first (T0 : List Pauli) (obs : PStr) (N lim : Nat) (ph : Bool)
+    (i0 : Nat) (j : Nat) (rows : List Pauli) (acc : Pauli)
+    (hlim : j + i0 < lim) (ha : anti (rowAt rows i0).g obs = true)
+    (hb : ∀ i, i < i0 → anti (rowAt rows i).g obs = false) :
+    scanAux T0 obs N lim none ph j rows none acc =
+      (rows.take (i0 + 1) ++
+        mapFrom (fun i row => if anti row.g obs then pivRow N ph (rowAt rows i0) i row else row)
+          (j + i0 + 1) (rows.drop (i0 + 1)),
+        some (j + i0, rowAt rows i0), acc) := by
+  induction i0 generalizing j rows with
+  | zero =>
+    cases rows with
+    | nil => rw [rowAt_of_le [] 0 (by simp), anti_nil_left] at ha; exact absurd ha (by simp)
+    | cons row rest =>
+      rw [rowAt_cons_zero] at ha
+      have hj : j < lim := by omega
+      simp only [scanAux, ha, hj, rowAt_cons_zero]
+      rw [scanAux_some]
+      simp
+  | succ i0 ih =>
+    cases rows with
+    | nil => rw [rowAt_of_le [] _ (by simp), anti_nil_left] at ha; exact absurd ha (by simp)
+    | cons row rest =>
+      have h0 := hb 0 (by omega)
+      rw [rowAt_cons_zero] at h0
+      rw [rowAt_cons_succ] at ha
+      simp only [scanAux, h0, rowAt_cons_succ]
+      rw [ih (j + 1) rest (by omega) ha (fun i hi => by
+        have := hb (i + 1) (by omega); rwa [rowAt_cons_succ] at this)]
+      have e : j + 1 + i0 = j + (i0 + 1) := by omega
+      simp [e]
+
+/-- a decidable property either fails below `m` or has a first witness below `m` -/
+theorem exists_first (P : Nat → Bool) (m : Nat) :
+    (∀ i, i < m → P i = false) ∨ ∃ p, p < m ∧ P p = true ∧ ∀ i, i < p → P i = false := by
+  induction m with
+  | zero => exact Or.inl (fun i hi => absurd hi (by omega))
+  | succ m ih =>
+    rcases ih with h | ⟨p, hp, h1, h2⟩
+    · by_cases hm : P m = true
+      · exact Or.inr ⟨m, by omega, hm, h⟩
+      · refine Or.inl (fun i hi => ?_)
+        by_cases e : i = m
+        · subst e; simpa using hm
+        · exact h i (by omega)
+    · exact Or.inr ⟨p, by omega, h1, h2⟩
+
+/-- **scan with a pre-selected pivot** (`stabilizer_measure` after the pre-scan): every other row that
+    anticommutes with the observable gets the pivot row multiplied in; the accumulator is untouched -/
+theorem scan_pre (T : List Pauli) (obs : PStr) (N lim p : Nat) (ph : Bool) :
+    scan T obs N lim (some p) ph =
+      (T.mapIdx (updRow obs N ph p (rowAt T p)), some (p, rowAt T p), ⟨idStr N, 0⟩) := by
+  unfold scan
+  simp only [Option.map_some]
+  rw [scanAux_some, ← mapFrom_zero]
+  congr 2
+  funext i row
+  unfold updRow
+  by_cases h : i = p
+  · subst h; simp
+  · have : ¬ p = i := fun e => h e.symm
+    simp [h, this]
+
+/-- **scan without pre-selection, first anticommuting row `p` below `lim`**: `p` is the pivot, and the rows
+    are updated as in `scan_pre` -/
+theorem scan_first (T : List Pauli) (obs : PStr) (N lim p : Nat) (ph : Bool)
+    (hlim : p < lim) (ha : anti (rowAt T p).g obs = true)
+    (hb : ∀ i, i < p → anti (rowAt T i).g obs = false) :
+    scan T obs N lim none ph =
+      (T.mapIdx (updRow obs N ph p (rowAt T p)), some (p, rowAt T p), ⟨idStr N, 0⟩) := by
+  have hp : p < T.length := anti_rowAt_lt T obs p ha
+  unfold scan
+  simp only [Option.map_none]
+  rw [scanAux_none_first T obs N lim ph p 0 T _ (by omega) ha hb]
+  congr 1
+  case e_snd => simp
+  apply ext_rowAt
+  · simp [length_mapFrom]; omega
+  · intro k hk
+    have hk' : k < T.length := by simp [length_mapFrom] at hk; omega
+    rw [rowAt_mapIdx _ T k hk']
+    by_cases hkp : k ≤ p
+    · have e1 : rowAt (T.take (p + 1) ++ mapFrom (fun i row =>
+          if anti row.g obs then pivRow N ph (rowAt T p) i row else row) (0 + p + 1) (T.drop (p + 1))) k
+          = rowAt T k := by
+        simp only [rowAt, List.getD_eq_getElem?_getD]
+        rw [List.getElem?_append_left (by simp; omega), List.getElem?_take_of_lt (by omega)]
+      rw [e1]
+      by_cases e : k = p
+      · subst e; rw [updRow_pivot]
+      · rw [updRow_of_comm _ _ _ _ _ _ _ (hb k (by omega))]
+    · have e1 : rowAt (T.take (p + 1) ++ mapFrom (fun i row =>
+          if anti row.g obs then pivRow N ph (rowAt T p) i row else row) (0 + p + 1) (T.drop (p + 1))) k
+          = rowAt (mapFrom (fun i row =>
+          if anti row.g obs then pivRow N ph (rowAt T p) i row else row) (0 + p + 1) (T.drop (p + 1)))
+            (k - (p + 1)) := by
+        simp only [rowAt, List.getD_eq_getElem?_getD]
+        rw [List.getElem?_append_right (by simp; omega)]
+        congr 2
+        simp; omega
+      rw [e1, rowAt_mapFrom _ _ _ _ (by simp; omega)]
+      have e2 : rowAt (T.drop (p + 1)) (k - (p + 1)) = rowAt T k := by
+        simp only [rowAt, List.getD_eq_getElem?_getD, List.getElem?_drop]
+        congr 2; omega
+      have e3 : 0 + p + 1 + (k - (p + 1)) = k := by omega
+      rw [e2, e3]
+      unfold updRow
+      have : k ≠ p := by omega
+      simp [this]
+
+/-- **scan without pivot**: no row below `lim` anticommutes with the observable; the tableau is returned
+    unchanged together with the accumulated product of partners -/
+theorem scan_clean (T : List Pauli) (obs : PStr) (N lim : Nat) (ph : Bool)
+    (h : ∀ i, i < lim → anti (rowAt T i).g obs = false) :
+    scan T obs N lim none ph = (T, none, scanAcc T obs N 0 T ⟨idStr N, 0⟩) := by
+  unfold scan
+  simp only [Option.map_none]
+  exact scanAux_none_clean T obs N lim ph 0 T _ (fun i hi => h i (by omega))
+
+/-- the two outcomes of a scan without pre-selection -/
+theorem scan_cases (T : List Pauli) (obs : PStr) (N lim : Nat) (ph : Bool) :
+    ((∀ i, i < lim → anti (rowAt T i).g obs = false) ∧
+      scan T obs N lim none ph = (T, none, scanAcc T obs N 0 T ⟨idStr N, 0⟩)) ∨
+    ∃ p, p < lim ∧ p < T.length ∧ anti (rowAt T p).g obs = true ∧
+      (∀ i, i < p → anti (rowAt T i).g obs = false) ∧
+      scan T obs N lim none ph =
+        (T.mapIdx (updRow obs N ph p (rowAt T p)), some (p, rowAt T p), ⟨idStr N, 0⟩) := by
+  rcases exists_first (fun i => anti (rowAt T i).g obs) lim with h | ⟨p, hp, h1, h2⟩
+  · exact Or.inl ⟨h, scan_clean T obs N lim ph h⟩
+  · exact Or.inr ⟨p, hp, anti_rowAt_lt T obs p h1, h1, h2, scan_first T obs N lim p ph hp h1 h2⟩
+
+theorem findAnti_some (T : List Pauli) (obs : PStr) (lo hi p : Nat) (h : findAnti T obs lo hi = some p) :
+    lo ≤ p ∧ p < hi ∧ anti (rowAt T p).g obs = true ∧
+      ∀ i, lo ≤ i → i < p → anti (rowAt T i).g obs = false := by
+  unfold findAnti at h
+  rw [List.find?_range'_eq_some] at h
+  obtain ⟨h1, h2, h3⟩ := h
+  rw [List.mem_range'_1] at h2
+  refine ⟨h2.1, by omega, h1, fun i hi1 hi2 => ?_⟩
+  simpa using h3 i hi1 hi2
+
+theorem findAnti_none (T : List Pauli) (obs : PStr) (lo hi : Nat) (h : findAnti T obs lo hi = none) :
+    ∀ i, lo ≤ i → i < hi → anti (rowAt T i).g obs = false := by
+  unfold findAnti at h
+  rw [List.find?_range'_eq_none] at h
+  intro i h1 h2
+  simpa using h i h1 (by omega)
+
+/-- rows of the scan output, lengths -/
+theorem length_scan_rows (T : List Pauli) (obs : PStr) (N : Nat) (ph : Bool) (p : Nat) (rp : Pauli) :
+    (T.mapIdx (updRow obs N ph p rp)).length = T.length := List.length_mapIdx
+
+/-! ## §5 `install` -/
+
+/-- the slot permutation performed by `install` (identity unless the pivot was a standby row) -/
+def installPerm (N r p : Nat) : Nat → Nat := fun k =>
+  if r ≤ p ∧ p < N then k
+  else if p = r - 1 then k
+  else if partner N p = r - 1 then swp p (partner N p) k
+  else swp p (r - 1) (swp (partner N p) (partner N (r - 1)) k)
+
+/-- the slot that holds the observable after `install` -/
+def installSlot (N r p : Nat) : Nat := if r ≤ p ∧ p < N then p else r - 1
+/-- the new `r` -/
+def installRank (N r p : Nat) : Nat := if r ≤ p ∧ p < N then r else r - 1
+
+/-- the strings right after `gs[q] = gs[p]; gs[p] = obs` -/
+def installBase (T : List Pauli) (obs : PStr) (N p : Nat) (gp : PStr) : Nat → PStr := fun k =>
+  if k = p then obs else if k = partner N p then gp else gAt T k
+
+theorem installPerm_lt (N r p k : Nat) (hp : p < 2 * N) (hr : r - 1 < 2 * N) (hk : k < 2 * N) :
+    installPerm N r p k < 2 * N := by
+  have hq := partner_lt N p hp
+  have hs := partner_lt N (r - 1) hr
+  unfold installPerm
+  split
+  · exact hk
+  · split
+    · exact hk
+    · split
+      · exact swp_lt _ _ _ _ hp hq hk
+      · exact swp_lt _ _ _ _ hp hr (swp_lt _ _ _ _ hq hs hk)
+
+theorem installPerm_J (N r p : Nat) (hp : p < 2 * N) (hr : r - 1 < 2 * N) (i j : Nat)
+    (hi : i < 2 * N) (hj : j < 2 * N) : J N (installPerm N r p i) (installPerm N r p j) = J N i j := by
+  unfold installPerm
+  split
+  · rfl
+  · split
+    · rfl
+    · split
+      · exact J_swp_partner N p hp i j hi hj
+      · next h => exact J_swp_two_pairs N p (r - 1) hp hr (fun e => h e.symm) i j hi hj
+
+/-- the observable ends in `installSlot` -/
+theorem installPerm_slot (N r p : Nat) (hr : r - 1 < 2 * N) :
+    installPerm N r p (installSlot N r p) = p := by
+  unfold installPerm installSlot
+  split
+  · rfl
+  · split
+    · next h => exact h.symm
+    · split
+      · next h => rw [← h, swp_right]
+      · next h1 h2 =>
+        have hs : r - 1 ≠ partner N (r - 1) := by rcases partner_cases N (r - 1) hr with h | h <;> omega
+        rw [swp_other _ _ (r - 1) (fun e => h2 e.symm) hs, swp_right]
+
+theorem install_of_active (T : List Pauli) (obs : PStr) (N r p : Nat) (gp : PStr) (h : r ≤ p ∧ p < N) :
+    install T obs N r p gp = (setG (setG T (partner N p) gp) p obs, r, p) := by
+  unfold install partner; simp [h.1, h.2]
+
+theorem install_of_standby (T : List Pauli) (obs : PStr) (N r p : Nat) (gp : PStr) (h : ¬ (r ≤ p ∧ p < N)) :
+    install T obs N r p gp =
+      if p = r - 1 then (setG (setG T (partner N p) gp) p obs, r - 1, r - 1)
+      else if partner N p = r - 1 then
+        (swapG (setG (setG T (partner N p) gp) p obs) p (partner N p), r - 1, r - 1)
+      else (swapG (swapG (setG (setG T (partner N p) gp) p obs) p (r - 1)) (partner N p) (partner N (r - 1)),
+        r - 1, r - 1) := by
+  have hc' : (!(decide (r ≤ p) && decide (p < N))) = true := by
+    simp only [Bool.not_eq_true', Bool.and_eq_false_iff, decide_eq_false_iff_not]
+    by_cases h1 : r ≤ p
+    · exact Or.inr (fun h2 => h ⟨h1, h2⟩)
+    · exact Or.inl h1
+  unfold install partner
+  simp only [hc', if_true]
+
+/-- **`install` row by row**: lengths and phases stay, the strings are those of `installBase` permuted by
+    `installPerm`; the new rank and the slot of the observable -/
+theorem install_spec (T : List Pauli) (obs : PStr) (N r p : Nat) (gp : PStr)
+    (hl : T.length = 2 * N) (hp : p < 2 * N) (hr : r - 1 < 2 * N) :
+    (install T obs N r p gp).1.length = 2 * N ∧
+    (install T obs N r p gp).2.1 = installRank N r p ∧
+    (install T obs N r p gp).2.2 = installSlot N r p ∧
+    (∀ k, (rowAt (install T obs N r p gp).1 k).p = (rowAt T k).p) ∧
+    (∀ k, gAt (install T obs N r p gp).1 k = installBase T obs N p gp (installPerm N r p k)) := by
+  have hq := partner_lt N p hp
+  have hs := partner_lt N (r - 1) hr
+  have hT1 : ∀ k, gAt (setG (setG T (partner N p) gp) p obs) k = installBase T obs N p gp k := by
+    intro k
+    rw [gAt_setG _ _ _ _ (by rw [length_setG, hl]; exact hp), gAt_setG _ _ _ _ (by rw [hl]; exact hq)]
+    rfl
+  have hT1p : ∀ k, (rowAt (setG (setG T (partner N p) gp) p obs) k).p = (rowAt T k).p := by
+    intro k; rw [rowAt_setG_p, rowAt_setG_p]
+  have hT1l : (setG (setG T (partner N p) gp) p obs).length = 2 * N := by
+    rw [length_setG, length_setG, hl]
+  unfold installPerm installRank installSlot
+  by_cases hc : r ≤ p ∧ p < N
+  · rw [install_of_active T obs N r p gp hc]
+    simp only [if_pos hc]
+    exact ⟨hT1l, trivial, trivial, hT1p, hT1⟩
+  · rw [install_of_standby T obs N r p gp hc]
+    simp only [if_neg hc]
+    by_cases h1 : p = r - 1
+    · simp only [if_pos h1]
+      exact ⟨hT1l, trivial, trivial, hT1p, hT1⟩
+    · simp only [if_neg h1]
+      by_cases h2 : partner N p = r - 1
+      · simp only [if_pos h2]
+        refine ⟨by rw [length_swapG]; exact hT1l, trivial, trivial, fun k => ?_, fun k => ?_⟩
+        · rw [rowAt_swapG_p]; exact hT1p k
+        · rw [gAt_swapG _ _ _ _ (by rw [hT1l]; exact hp) (by rw [hT1l]; exact hq)]; exact hT1 _
+      · simp only [if_neg h2]
+        refine ⟨by rw [length_swapG, length_swapG]; exact hT1l, trivial, trivial, fun k => ?_, fun k => ?_⟩
+        · rw [rowAt_swapG_p, rowAt_swapG_p]; exact hT1p k
+        · rw [gAt_swapG _ _ _ _ (by rw [length_swapG, hT1l]; exact hq) (by rw [length_swapG, hT1l]; exact hs),
+            gAt_swapG _ _ _ _ (by rw [hT1l]; exact hp) (by rw [hT1l]; exact hr)]
+          exact hT1 _
+
+/-- the strings after the scan and the two assignments of `install` are those of the function-level
+    pivot update `pivF` -/
+theorem installBase_scan (T0 : List Pauli) (obs : PStr) (n p : Nat) (ph : Bool) (hl : T0.length = 2 * n)
+    (k : Nat) (hk : k < 2 * n) :
+    installBase (T0.mapIdx (updRow obs n ph p (rowAt T0 p))) obs n p (rowAt T0 p).g k
+      = pivF n p obs (gAt T0) k := by
+  unfold installBase pivF
+  by_cases h1 : k = p
+  · simp [h1]
+  · by_cases h2 : k = partner n p
+    · simp only [if_neg h1, if_pos h2]; rfl
+    · simp only [if_neg h1, if_neg h2]
+      unfold gAt
+      rw [rowAt_mapIdx _ T0 k (by omega), updRow_g]
+      simp [h1]
+
+/-- **scan followed by `install`, row by row**: `T0` any tableau with the Gram pattern, `p` any slot whose
+    row anticommutes with the observable. Lengths, new rank, slot of the observable, the Gram pattern of the
+    result, and the phases (which stay in their slots). -/
+theorem pivot_install_core (T0 : List Pauli) (n r : Nat) (obs : PStr) (ph : Bool) (p : Nat)
+    (hl : T0.length = 2 * n) (hg : GramF n (gAt T0)) (hr : r ≤ n) (ho : obs.length = n) (hp : p < 2 * n)
+    (ha : anti (gAt T0 p) obs = true) :
+    (install (T0.mapIdx (updRow obs n ph p (rowAt T0 p))) obs n r p (rowAt T0 p).g).1.length = 2 * n ∧
+    (install (T0.mapIdx (updRow obs n ph p (rowAt T0 p))) obs n r p (rowAt T0 p).g).2.1 = installRank n r p ∧
+    (install (T0.mapIdx (updRow obs n ph p (rowAt T0 p))) obs n r p (rowAt T0 p).g).2.2 = installSlot n r p ∧
+    GramF n (gAt (install (T0.mapIdx (updRow obs n ph p (rowAt T0 p))) obs n r p (rowAt T0 p).g).1) ∧
+    gAt (install (T0.mapIdx (updRow obs n ph p (rowAt T0 p))) obs n r p (rowAt T0 p).g).1 (installSlot n r p)
+      = obs ∧
+    ∀ k, k < 2 * n →
+      (rowAt (install (T0.mapIdx (updRow obs n ph p (rowAt T0 p))) obs n r p (rowAt T0 p).g).1 k).p
+        = (updRow obs n ph p (rowAt T0 p) k (rowAt T0 k)).p := by
+  have hr' : r - 1 < 2 * n := by omega
+  have hTl : (T0.mapIdx (updRow obs n ph p (rowAt T0 p))).length = 2 * n := by
+    rw [List.length_mapIdx]; exact hl
+  obtain ⟨s1, s2, s3, s4, s5⟩ :=
+    install_spec (T0.mapIdx (updRow obs n ph p (rowAt T0 p))) obs n r p (rowAt T0 p).g hTl hp hr'
+  have hpiv : GramF n (pivF n p obs (gAt T0)) :=
+    pivF_gram n p obs (gAt T0) hg hp ho ((anti_iff _ _).1 ha)
+  refine ⟨s1, s2, s3, ?_, ?_, ?_⟩
+  · apply GramF.congr (GramF.comp hpiv (installPerm n r p) (fun k hk => installPerm_lt n r p k hp hr' hk)
+      (fun i j hi hj => installPerm_J n r p hp hr' i j hi hj))
+    intro k hk
+    rw [s5 k, installBase_scan T0 obs n p ph hl _ (installPerm_lt n r p k hp hr' hk)]
+  · rw [s5, installPerm_slot n r p hr']
+    simp [installBase]
+  · intro k hk
+    rw [s4 k, rowAt_mapIdx _ T0 k (by omega)]
+
+theorem installRank_le (n r p : Nat) : installRank n r p ≤ r := by
+  unfold installRank; split <;> omega
+
+theorem installSlot_lt (n r p : Nat) (hr : r ≤ n) (hp : p < 2 * n) : installSlot n r p < 2 * n := by
+  unfold installSlot; split <;> omega
+
+/-- the slot of the observable is an active stabilizer slot of the new state, provided the pivot was found
+    below `n + r` -/
+theorem installSlot_active (n r p : Nat) (hr : r ≤ n) (hp : p < n + r) :
+    installRank n r p ≤ installSlot n r p ∧ installSlot n r p < n := by
+  unfold installRank installSlot; split <;> omega
+
+/-- Hermiticity of the new active rows other than the observable: needs that active rows anticommuting
+    with the observable occur only together with an active pivot (the pre-scan of `stabilizer_measure`,
+    or `r = 0`) -/
+theorem pivot_install_herm (T0 : List Pauli) (n r : Nat) (obs : PStr) (ph : Bool) (p : Nat)
+    (hg : GramF n (gAt T0)) (hp : p < n + r)
+    (hh : ∀ i, r ≤ i → i < n → (rowAt T0 i).p % 2 = 0)
+    (hA : ∀ k, r ≤ k → k < n → anti (gAt T0 k) obs = true → r ≤ p ∧ p < n)
+    (k : Nat) (hk1 : installRank n r p ≤ k) (hk2 : k < n) (hk3 : k ≠ installSlot n r p) :
+    (updRow obs n ph p (rowAt T0 p) k (rowAt T0 k)).p % 2 = 0 := by
+  by_cases hc : r ≤ p ∧ p < n
+  · simp only [installRank, installSlot, if_pos hc] at hk1 hk3
+    apply updRow_p_even _ _ _ _ _ _ _ (hh k hk1 hk2) (hh p hc.1 hc.2)
+    have := hg.2 k p (by omega) (by omega)
+    unfold gAt at this
+    rw [this]; unfold J; split <;> omega
+  · simp only [installRank, installSlot, if_neg hc] at hk1 hk3
+    have hrk : r ≤ k := by omega
+    by_cases ha : anti (gAt T0 k) obs = true
+    · exact absurd (hA k hrk hk2 ha) hc
+    · rw [updRow_of_comm _ _ _ _ _ _ _ (by simpa [gAt] using ha)]
+      exact hh k hrk hk2
+
+/-- **the tableau invariant after scan, `install` and `setP`** with an even phase -/
+theorem pivot_install_inv (st : State) (n : Nat) (obs : PStr) (ph : Bool) (p : Nat) (c : Int)
+    (h : TabInv st n) (ho : obs.length = n) (hp : p < n + st.r)
+    (ha : anti (gAt st.rows p) obs = true)
+    (hA : ∀ k, st.r ≤ k → k < n → anti (gAt st.rows k) obs = true → st.r ≤ p ∧ p < n)
+    (hc : c % 2 = 0) :
+    TabInv ⟨setP (install (st.rows.mapIdx (updRow obs n ph p (rowAt st.rows p))) obs n st.r p
+        (rowAt st.rows p).g).1 (installSlot n st.r p) c, installRank n st.r p⟩ n := by
+  obtain ⟨hl, hr, hg, hh⟩ := (tabInv_iff st n).1 h
+  have hp2 : p < 2 * n := by omega
+  obtain ⟨c1, _, _, c4, _, c6⟩ := pivot_install_core st.rows n st.r obs ph p hl hg hr ho hp2 ha
+  have hsl := installSlot_lt n st.r p hr hp2
+  rw [tabInv_iff]
+  refine ⟨by rw [length_setP]; exact c1, Nat.le_trans (installRank_le n st.r p) hr, ?_, ?_⟩
+  · exact GramF.congr c4 (fun k _ => gAt_setP _ _ _ _)
+  · intro i hi1 hi2
+    simp only at hi1 ⊢
+    rw [rowAt_setP_p _ _ _ _ (by rw [c1]; exact hsl)]
+    split
+    · exact hc
+    · next hne =>
+      rw [c6 i (by omega)]
+      exact pivot_install_herm st.rows n st.r obs ph p hg hp hh hA i hi1 hi2 hne
+
+/-! ## §6 `measure1`, `project1`, `postselect` row by row -/
+
+theorem install_rank_slot (T : List Pauli) (obs : PStr) (N r p : Nat) (gp : PStr) :
+    (install T obs N r p gp).2.1 = installRank N r p ∧ (install T obs N r p gp).2.2 = installSlot N r p := by
+  unfold installRank installSlot
+  by_cases hc : r ≤ p ∧ p < N
+  · rw [install_of_active T obs N r p gp hc]; simp only [if_pos hc]; first | exact ⟨rfl, rfl⟩ | exact ⟨trivial, trivial⟩
+  · rw [install_of_standby T obs N r p gp hc]; simp only [if_neg hc]
+    split
+    · first | exact ⟨rfl, rfl⟩ | exact ⟨trivial, trivial⟩
+    · split <;> first | exact ⟨rfl, rfl⟩ | exact ⟨trivial, trivial⟩
+
+/-- `p` is the pivot chosen by `stabilizer_measure`: the first anticommuting active stabilizer if there is
+    one, otherwise the first anticommuting row below `N + r` -/
+def IsMeasPivot (st : State) (obs : PStr) (p : Nat) : Prop :=
+  anti (gAt st.rows p) obs = true ∧
+  ((st.r ≤ p ∧ p < st.N ∧ ∀ i, st.r ≤ i → i < p → anti (gAt st.rows i) obs = false) ∨
+   (p < st.N + st.r ∧ (∀ i, st.r ≤ i → i < st.N → anti (gAt st.rows i) obs = false) ∧
+     ∀ i, i < p → anti (gAt st.rows i) obs = false))
+
+/-- the state written by a random-outcome measurement with pivot `p` and new phase `c` -/
+def pivotState (st : State) (obs : PStr) (ph : Bool) (p : Nat) (c : Int) : State :=
+  ⟨setP (install (st.rows.mapIdx (updRow obs st.N ph p (rowAt st.rows p))) obs st.N st.r p
+      (rowAt st.rows p).g).1 (installSlot st.N st.r p) c, installRank st.N st.r p⟩
+
+/-- **`measure1` row by row.** Either there is a pivot (random outcome): the result is `pivotState` with the
+    coin's phase; or no row below `N + r` anticommutes (deterministic outcome): the state is returned
+    unchanged and the outcome is read off the accumulated product `scanAcc` of stabilizers. -/
+theorem measure1_cases (st : State) (obs : Pauli) (coin : Bool) :
+    (∃ p, IsMeasPivot st obs.g p ∧
+      measure1 st obs coin =
+        .ok (pivotState st obs.g true p (if coin then 2 else 0),
+          (((if coin then 2 else 0) - obs.p) % 4) / 2, true)) ∨
+    ((∀ i, i < st.N + st.r → anti (gAt st.rows i) obs.g = false) ∧
+      measure1 st obs coin =
+        if (scanAcc st.rows obs.g st.N 0 st.rows ⟨idStr st.N, 0⟩).g = obs.g then
+          .ok (st, (((scanAcc st.rows obs.g st.N 0 st.rows ⟨idStr st.N, 0⟩).p - obs.p) % 4) / 2, false)
+        else .error .assertion) := by
+  have hpiv : ∀ p acc, scan st.rows obs.g st.N (st.N + st.r) (findAnti st.rows obs.g st.r st.N) true =
+      (st.rows.mapIdx (updRow obs.g st.N true p (rowAt st.rows p)), some (p, rowAt st.rows p), acc) →
+      measure1 st obs coin =
+        .ok (pivotState st obs.g true p (if coin then 2 else 0),
+          (((if coin then 2 else 0) - obs.p) % 4) / 2, true) := by
+    intro p acc hs
+    unfold measure1 pivotState
+    simp only [hs]
+    rw [(install_rank_slot _ _ _ _ _ _).1, (install_rank_slot _ _ _ _ _ _).2]
+  cases hfa : findAnti st.rows obs.g st.r st.N with
+  | some p =>
+    obtain ⟨h1, h2, h3, h4⟩ := findAnti_some _ _ _ _ _ hfa
+    exact Or.inl ⟨p, ⟨h3, Or.inl ⟨h1, h2, h4⟩⟩, hpiv p _ (by rw [hfa]; exact scan_pre _ _ _ _ _ _)⟩
+  | none =>
+    have hn := findAnti_none _ _ _ _ hfa
+    rcases scan_cases st.rows obs.g st.N (st.N + st.r) true with ⟨hc, hs⟩ | ⟨p, hp1, _, hp3, hp4, hs⟩
+    · refine Or.inr ⟨hc, ?_⟩
+      unfold measure1
+      simp only [hfa, hs]
+    · exact Or.inl ⟨p, ⟨hp3, Or.inr ⟨hp1, hn, hp4⟩⟩, hpiv p _ (by rw [hfa]; exact hs)⟩
+
+/-- **`project1` row by row** (strings only, no phase is touched) -/
+theorem project1_cases (st : State) (obs : PStr) :
+    (∃ p, p < st.N + st.r ∧ anti (gAt st.rows p) obs = true ∧
+      (∀ i, i < p → anti (gAt st.rows i) obs = false) ∧
+      project1 st obs =
+        ⟨(install (st.rows.mapIdx (updRow obs st.N false p (rowAt st.rows p))) obs st.N st.r p
+          (rowAt st.rows p).g).1, installRank st.N st.r p⟩) ∨
+    ((∀ i, i < st.N + st.r → anti (gAt st.rows i) obs = false) ∧ project1 st obs = st) := by
+  rcases scan_cases st.rows obs st.N (st.N + st.r) false with ⟨hc, hs⟩ | ⟨p, hp1, _, hp3, hp4, hs⟩
+  · refine Or.inr ⟨hc, ?_⟩
+    unfold project1
+    simp only [hs]
+  · refine Or.inl ⟨p, hp1, hp3, hp4, ?_⟩
+    unfold project1
+    simp only [hs]
+    rw [(install_rank_slot _ _ _ _ _ _).1]
+
+/-- **`postselect` row by row** (pure states: `r = 0`, pivot among the stabilizers) -/
+theorem postselect_cases (st : State) (P : Pauli) (res : Nat) (hr : st.r = 0) :
+    (∃ p, p < st.N ∧ anti (gAt st.rows p) P.g = true ∧
+      (∀ i, i < p → anti (gAt st.rows i) P.g = false) ∧
+      postselect st P res =
+        .ok (pivotState st P.g true p ((P.p + 2 * (res : Int)) % 4), ⟨false, 1⟩)) ∨
+    ((∀ i, i < st.N → anti (gAt st.rows i) P.g = false) ∧
+      postselect st P res =
+        if (scanAcc st.rows P.g st.N 0 st.rows ⟨idStr st.N, 0⟩).g = P.g then
+          .ok (st, if (scanAcc st.rows P.g st.N 0 st.rows ⟨idStr st.N, 0⟩).p = (P.p + 2 * (res : Int)) % 4
+            then ⟨false, 0⟩ else ⟨true, 0⟩)
+        else .error .assertion) := by
+  have hr' : (st.r != 0) = false := by simp [hr]
+  have hst : (⟨st.rows, 0⟩ : State) = st := by cases st; simp_all
+  rcases scan_cases st.rows P.g st.N st.N true with ⟨hc, hs⟩ | ⟨p, hp1, _, hp3, hp4, hs⟩
+  · refine Or.inr ⟨hc, ?_⟩
+    unfold postselect
+    simp only [hr', hs, hst]
+    simp
+  · refine Or.inl ⟨p, hp1, hp3, hp4, ?_⟩
+    have hact : st.r ≤ p ∧ p < st.N := ⟨by omega, hp1⟩
+    unfold postselect pivotState
+    simp only [hr', hs]
+    rw [install_of_active _ _ _ _ _ _ hact]
+    have e1 : installSlot st.N st.r p = p := by simp only [installSlot, if_pos hact]
+    have e2 : installRank st.N st.r p = 0 := by simp only [installRank, if_pos hact]; exact hr
+    rw [e1, e2]
+    simp [partner]
+
+/-! ## §7 constructors: `idMap`, `mapToState`; rotations -/
+
+theorem rowAt_append (A B : List Pauli) (i : Nat) :
+    rowAt (A ++ B) i = if i < A.length then rowAt A i else rowAt B (i - A.length) := by
+  simp only [rowAt, List.getD_eq_getElem?_getD, List.getElem?_append]
+  split <;> rfl
+
+theorem rowAt_map_range (f : Nat → Pauli) (n i : Nat) (hi : i < n) : rowAt ((List.range n).map f) i = f i := by
+  rw [rowAt_eq_getElem _ i (by simpa using hi)]; simp
+
+theorem length_idRows (n k : Nat) : (idRows n k).length = 2 * k := by
+  induction k with
+  | zero => rfl
+  | succ k ih => simp [idRows, ih]; omega
+
+theorem rowAt_idRows (n k i : Nat) (hi : i < 2 * k) :
+    rowAt (idRows n k) i = if i % 2 = 0 then ⟨unitX n (i / 2), 0⟩ else ⟨unitZ n (i / 2), 0⟩ := by
+  induction k with
+  | zero => omega
+  | succ k ih =>
+    simp only [idRows]
+    rw [rowAt_append, length_idRows]
+    by_cases h : i < 2 * k
+    · rw [if_pos h]; exact ih h
+    · rw [if_neg h]
+      by_cases h0 : i = 2 * k
+      · have e1 : i - 2 * k = 0 := by omega
+        have e2 : i % 2 = 0 := by omega
+        have e3 : i / 2 = k := by omega
+        rw [e1, e2, e3]; rfl
+      · have e1 : i - 2 * k = 1 := by omega
+        have e2 : ¬ i % 2 = 0 := by omega
+        have e3 : i / 2 = k := by omega
+        rw [e1, if_neg e2, e3]; rfl
+
+theorem acqSum_unit_XX (l : List Nat) (a b : Nat) :
+    acqSum (l.map fun i => (i == a, false)) (l.map fun i => (i == b, false)) = 0 := by
+  induction l with
+  | nil => rfl
+  | cons x xs ih => simp [acqSum_cons, ih, acqQ, b2i]
+
+theorem acqSum_unit_ZZ (l : List Nat) (a b : Nat) :
+    acqSum (l.map fun i => (false, i == a)) (l.map fun i => (false, i == b)) = 0 := by
+  induction l with
+  | nil => rfl
+  | cons x xs ih => simp [acqSum_cons, ih, acqQ, b2i]
+
+theorem acqSum_unit_XZ (s m a b : Nat) :
+    acqSum ((List.range' s m).map fun i => (i == a, false)) ((List.range' s m).map fun i => (false, i == b))
+      = if a = b ∧ s ≤ a ∧ a < s + m then -1 else 0 := by
+  induction m generalizing s with
+  | zero =>
+    have : ¬ (a = b ∧ s ≤ a ∧ a < s + 0) := by omega
+    rw [if_neg this]; rfl
+  | succ m ih =>
+    rw [List.range'_succ]
+    simp only [List.map_cons, acqSum_cons, ih (s + 1)]
+    by_cases h1 : s = a
+    · by_cases h2 : s = b
+      · have c1 : a = b ∧ s ≤ a ∧ a < s + (m + 1) := by omega
+        have c2 : ¬ (a = b ∧ s + 1 ≤ a ∧ a < s + 1 + m) := by omega
+        rw [if_pos c1, if_neg c2]; simp [acqQ, b2i, h1]
+        subst h1; subst h2; simp
+      · have c1 : ¬ (a = b ∧ s ≤ a ∧ a < s + (m + 1)) := by omega
+        have c2 : ¬ (a = b ∧ s + 1 ≤ a ∧ a < s + 1 + m) := by omega
+        rw [if_neg c1, if_neg c2]; simp [acqQ, b2i, h2]
+    · have c : (a = b ∧ s ≤ a ∧ a < s + (m + 1)) ↔ (a = b ∧ s + 1 ≤ a ∧ a < s + 1 + m) := by omega
+      simp only [c]
+      simp [acqQ, b2i, h1]
+
+theorem acq_unit_XX (n a b : Nat) : acq (unitX n a) (unitX n b) = 0 := by
+  unfold acq unitX; rw [acqSum_unit_XX]; rfl
+theorem acq_unit_ZZ (n a b : Nat) : acq (unitZ n a) (unitZ n b) = 0 := by
+  unfold acq unitZ; rw [acqSum_unit_ZZ]; rfl
+theorem acq_unit_XZ (n a b : Nat) : acq (unitX n a) (unitZ n b) = if a = b ∧ a < n then 1 else 0 := by
+  unfold acq unitX unitZ
+  rw [List.range_eq_range', acqSum_unit_XZ]
+  by_cases h : a = b ∧ a < n
+  · rw [if_pos h, if_pos (by omega)]; rfl
+  · rw [if_neg h, if_neg (by omega)]; rfl
+theorem acq_unit_ZX (n a b : Nat) : acq (unitZ n a) (unitX n b) = if a = b ∧ a < n then 1 else 0 := by
+  rw [acq_symm, acq_unit_XZ]
+  by_cases h : a = b ∧ a < n
+  · rw [if_pos h, if_pos (by omega)]
+  · rw [if_neg h, if_neg (by omega)]
+
+theorem length_unitX (n k : Nat) : (unitX n k).length = n := by simp [unitX]
+theorem length_unitZ (n k : Nat) : (unitZ n k).length = n := by simp [unitZ]
+
+/-- the identity map is a valid Clifford map -/
+theorem idMap_valid (n : Nat) : ValidMap (idMap n) n := by
+  unfold idMap
+  refine ⟨length_idRows n n, ?_, ?_⟩
+  · intro R hR
+    obtain ⟨j, hj, rfl⟩ := exists_rowAt_of_mem _ R hR
+    rw [length_idRows] at hj
+    rw [rowAt_idRows n n j hj]
+    split
+    · exact ⟨length_unitX _ _, rfl⟩
+    · exact ⟨length_unitZ _ _, rfl⟩
+  · intro i j hi hj
+    rw [rowAt_idRows n n i hi, rowAt_idRows n n j hj]
+    by_cases h1 : i % 2 = 0 <;> by_cases h2 : j % 2 = 0
+    · rw [if_pos h1, if_pos h2, acq_unit_XX, if_neg (by omega)]
+    · rw [if_pos h1, if_neg h2, acq_unit_XZ]
+      by_cases c : i / 2 = j / 2
+      · rw [if_pos (by omega), if_pos (by omega)]
+      · rw [if_neg (by omega), if_neg (by omega)]
+    · rw [if_neg h1, if_pos h2, acq_unit_ZX]
+      by_cases c : i / 2 = j / 2
+      · rw [if_pos (by omega), if_pos (by omega)]
+      · rw [if_neg (by omega), if_neg (by omega)]
+    · rw [if_neg h1, if_neg h2, acq_unit_ZZ, if_neg (by omega)]
+
+theorem length_mapToState (M : List Pauli) : (mapToState M).length = 2 * (M.length / 2) := by
+  simp [mapToState]; omega
+
+/-- `map_to_state` row by row: stabilizer `i` is the image of `Z_i`, destabilizer `n + i` the image of `X_i` -/
+theorem rowAt_mapToState (M : List Pauli) (i : Nat) (hi : i < 2 * (M.length / 2)) :
+    rowAt (mapToState M) i =
+      if i < M.length / 2 then rowAt M (2 * i + 1) else rowAt M (2 * (i - M.length / 2)) := by
+  unfold mapToState
+  simp only
+  rw [rowAt_append]
+  simp only [List.length_map, List.length_range]
+  split
+  · next h => rw [rowAt_map_range _ _ _ h]
+  · next h => rw [rowAt_map_range _ _ _ (by omega)]
+
+/-- converting a valid map to a state gives a valid tableau -/
+theorem toState_inv (M : List Pauli) (n r : Nat) (hM : ValidMap M n) (hr : r ≤ n) :
+    TabInv (toState M r) n := by
+  obtain ⟨hl, hrow, hacq⟩ := hM
+  have hn : M.length / 2 = n := by omega
+  have hrow' : ∀ k, k < 2 * n → (rowAt M k).g.length = n ∧ (rowAt M k).p % 2 = 0 :=
+    fun k hk => hrow _ (rowAt_mem M k (by omega))
+  rw [tabInv_iff]
+  simp only [toState]
+  refine ⟨by rw [length_mapToState, hn], hr, ⟨fun i hi => ?_, fun i j hi hj => ?_⟩, fun i _ hi => ?_⟩
+  · unfold gAt
+    rw [rowAt_mapToState M i (by omega), hn]
+    split
+    · exact (hrow' _ (by omega)).1
+    · exact (hrow' _ (by omega)).1
+  · unfold gAt
+    rw [rowAt_mapToState M i (by omega), rowAt_mapToState M j (by omega), hn]
+    by_cases h1 : i < n <;> by_cases h2 : j < n
+    · rw [if_pos h1, if_pos h2, hacq _ _ (by omega) (by omega)]
+      unfold J; split <;> split <;> omega
+    · rw [if_pos h1, if_neg h2, hacq _ _ (by omega) (by omega)]
+      unfold J; split <;> split <;> omega
+    · rw [if_neg h1, if_pos h2, hacq _ _ (by omega) (by omega)]
+      unfold J; split <;> split <;> omega
+    · rw [if_neg h1, if_neg h2, hacq _ _ (by omega) (by omega)]
+      unfold J; split <;> split <;> omega
+  · rw [rowAt_mapToState M i (by omega), hn, if_pos hi]
+    exact (hrow' _ (by omega)).2
+
+/-- replacing all phases by an even phase keeps the invariant -/
+theorem TabInv.map_phase {st : State} {n : Nat} (h : TabInv st n) (c : Int) (hc : c % 2 = 0) :
+    TabInv ⟨st.rows.map fun R => ⟨R.g, c⟩, st.r⟩ n := by
+  obtain ⟨hl, hr, hg, _⟩ := (tabInv_iff st n).1 h
+  rw [tabInv_iff]
+  refine ⟨by simpa using hl, hr, GramF.congr hg (fun k hk => ?_), fun i _ hi => ?_⟩
+  · unfold gAt; simp only; rw [rowAt_map _ _ k (by omega)]
+  · simp only; rw [rowAt_map _ _ i (by omega)]; exact hc
+
+/-- a Hermitian rotation keeps rows Hermitian -/
+theorem rotate_p_even (G P : Pauli) (hG : G.p % 2 = 0) (hP : P.p % 2 = 0) : (rotate G P).p % 2 = 0 := by
+  rcases acq_bit G.g P.g with h | h
+  · rw [rotate_of_acq_zero G P h]; exact hP
+  · rw [rotate_of_acq_one G P h]
+    have hpar := ipow_parity P.g G.g
+    rw [acq_symm, h] at hpar
+    simp only
+    omega
+
+/-- rotation by a Hermitian generator preserves the invariant -/
+theorem rotate_inv (st : State) (n : Nat) (G : Pauli) (h : TabInv st n) (hG : G.p % 2 = 0)
+    (hl : G.g.length = n) : TabInv ⟨st.rows.map (rotate G), st.r⟩ n := by
+  obtain ⟨hlen, hr, hg, hh⟩ := (tabInv_iff st n).1 h
+  rw [tabInv_iff]
+  refine ⟨by simpa using hlen, hr, ⟨fun i hi => ?_, fun i j hi hj => ?_⟩, fun i hi1 hi2 => ?_⟩
+  · unfold gAt; simp only
+    rw [rowAt_map _ _ i (by omega), length_rotate G _ (by rw [hl]; exact (hg.1 i hi).symm)]
+    exact hg.1 i hi
+  · unfold gAt; simp only
+    rw [rowAt_map _ _ i (by omega), rowAt_map _ _ j (by omega),
+      rotate_acq G _ _ (by rw [hl]; exact (hg.1 i hi).symm) (by rw [hl]; exact (hg.1 j hj).symm)]
+    exact hg.2 i j hi hj
+  · simp only
+    rw [rowAt_map _ _ i (by omega)]
+    exact rotate_p_even G _ hG (hh i hi1 hi2)
+
+section Nondegeneracy
+open Z2
+
+/-! ## §8 symplectic nondegeneracy: more vectors than coordinates are dependent -/
+
+theorem xsum_succ (f : Nat → Bool) (n : Nat) : xsum f (n + 1) = (xsum f n != f n) := rfl
+
+/-- the index map that skips `p` -/
+def skipIdx (p i : Nat) : Nat := if i < p then i else i + 1
+
+/-- take the term `p` out of a GF(2) sum -/
+theorem xsum_skip (g : Nat → Bool) (N p : Nat) (hp : p ≤ N) :
+    xsum g (N + 1) = (g p != xsum (fun i => g (skipIdx p i)) N) := by
+  induction N with
+  | zero =>
+    have : p = 0 := by omega
+    subst this; simp [xsum]
+  | succ N ih =>
+    by_cases h : p ≤ N
+    · rw [xsum, ih h]
+      simp only [xsum]
+      have : skipIdx p N = N + 1 := by unfold skipIdx; rw [if_neg (by omega)]
+      rw [this]
+      cases g p <;> cases xsum (fun i => g (skipIdx p i)) N <;> cases g (N + 1) <;> rfl
+    · have hpN : p = N + 1 := by omega
+      subst hpN
+      rw [xsum]
+      have : xsum (fun i => g (skipIdx (N + 1) i)) (N + 1) = xsum g (N + 1) := by
+        apply xsum_congr
+        intro k hk
+        unfold skipIdx; rw [if_pos hk]
+      rw [this]
+      cases xsum g (N + 1) <;> cases g (N + 1) <;> rfl
+
+/-- **`m + 1` vectors with `m` coordinates over GF(2) are linearly dependent** (`v i j`: coordinate `j` of
+    vector `i`) -/
+theorem exists_dependency (m : Nat) : ∀ v : Nat → Nat → Bool,
+    ∃ c : Nat → Bool, (∃ i, i ≤ m ∧ c i = true) ∧
+      ∀ j, j < m → xsum (fun i => c i && v i j) (m + 1) = false := by
+  induction m with
+  | zero => intro v; exact ⟨fun _ => true, ⟨0, Nat.le_refl _, rfl⟩, fun j hj => absurd hj (by omega)⟩
+  | succ m ih =>
+    intro v
+    by_cases hA : ∀ i, i ≤ m + 1 → v i m = false
+    · obtain ⟨c, ⟨i0, hi0, hc0⟩, hc⟩ := ih v
+      refine ⟨fun i => if i ≤ m then c i else false, ⟨i0, by omega, by simp [hi0, hc0]⟩, fun j hj => ?_⟩
+      by_cases hjm : j < m
+      · rw [xsum_succ]
+        have e : xsum (fun i => (if i ≤ m then c i else false) && v i j) (m + 1)
+            = xsum (fun i => c i && v i j) (m + 1) := by
+          apply xsum_congr; intro k hk
+          have hk' : k ≤ m := by omega
+          simp [hk']
+        rw [e, hc j hjm]
+        have : ¬ m + 1 ≤ m := by omega
+        simp [this]
+      · have : j = m := by omega
+        subst this
+        apply xsum_false
+        intro k hk
+        rw [hA k (by omega)]; simp
+    · have hB : ∃ p, p ≤ m + 1 ∧ v p m = true := by
+        apply Classical.byContradiction
+        intro hn
+        apply hA
+        intro i hi
+        cases hv : v i m with
+        | false => rfl
+        | true => exact absurd ⟨i, hi, hv⟩ hn
+      obtain ⟨p, hp, hvp⟩ := hB
+      obtain ⟨c, ⟨i0, hi0, hc0⟩, hc⟩ :=
+        ih (fun i j => v (skipIdx p i) j != (v (skipIdx p i) m && v p j))
+      let a : Bool := xsum (fun i => c i && v (skipIdx p i) m) (m + 1)
+      let c' : Nat → Bool := fun k => if k = p then a else if k < p then c k else c (k - 1)
+      have hc' : ∀ i, c' (skipIdx p i) = c i := by
+        intro i
+        unfold skipIdx
+        by_cases h : i < p
+        · have h1 : ¬ i = p := by omega
+          simp only [c', if_pos h, if_neg h1]
+        · have h1 : ¬ i + 1 = p := by omega
+          have h2 : ¬ i + 1 < p := by omega
+          simp only [c', if_neg h, if_neg h1, if_neg h2]
+          rfl
+      have key : ∀ j, xsum (fun k => c' k && v k j) (m + 2)
+          = xsum (fun i => c i && (v (skipIdx p i) j != (v (skipIdx p i) m && v p j))) (m + 1) := by
+        intro j
+        rw [xsum_skip _ (m + 1) p hp]
+        simp only [hc']
+        have e1 : c' p = a := by simp [c']
+        have e2 : xsum (fun i => c i && (v (skipIdx p i) j != (v (skipIdx p i) m && v p j))) (m + 1)
+            = (xsum (fun i => c i && v (skipIdx p i) j) (m + 1) != (a && v p j)) := by
+          have : ∀ i, (c i && (v (skipIdx p i) j != (v (skipIdx p i) m && v p j)))
+              = ((c i && v (skipIdx p i) j) != ((c i && v (skipIdx p i) m) && v p j)) := by
+            intro i
+            cases c i <;> cases v (skipIdx p i) j <;> cases v (skipIdx p i) m <;> cases v p j <;> rfl
+          simp only [this]
+          rw [xsum_add, xsum_mul_right]
+        rw [e1, e2]
+        cases (a && v p j) <;> cases xsum (fun i => c i && v (skipIdx p i) j) (m + 1) <;> rfl
+      refine ⟨c', ⟨skipIdx p i0, by unfold skipIdx; split <;> omega, by rw [hc' i0]; exact hc0⟩,
+        fun j hj => ?_⟩
+      rw [key j]
+      by_cases hjm : j < m
+      · exact hc j hjm
+      · have : j = m := by omega
+        subst this
+        apply xsum_false
+        intro k _
+        rw [hvp]
+        cases c k <;> cases v (skipIdx p k) j <;> rfl
+
+/-- bit `j` of a string in the flat layout `x0 z0 x1 z1 …` -/
+def bitAt (g : PStr) (j : Nat) : Bool :=
+  if j % 2 = 0 then (g.getD (j / 2) (false, false)).1 else (g.getD (j / 2) (false, false)).2
+
+theorem getD_xorS (a b : PStr) (k : Nat) (h : a.length = b.length) :
+    (xorS a b).getD k (false, false) = xorQ (a.getD k (false, false)) (b.getD k (false, false)) := by
+  induction a generalizing b k with
+  | nil =>
+    cases b with
+    | nil => simp [xorS, xorQ]
+    | cons y ys => simp at h
+  | cons x xs ih =>
+    cases b with
+    | nil => simp at h
+    | cons y ys =>
+      cases k with
+      | zero => simp [xorS_cons]
+      | succ k => simpa [xorS_cons] using ih ys k (by simpa using h)
+
+theorem bitAt_xorS (a b : PStr) (j : Nat) (h : a.length = b.length) :
+    bitAt (xorS a b) j = (bitAt a j != bitAt b j) := by
+  unfold bitAt
+  rw [getD_xorS a b _ h]
+  split <;> rfl
+
+theorem bitAt_idStr (n j : Nat) : bitAt (idStr n) j = false := by
+  have : ∀ k, (idStr n).getD k (false, false) = (false, false) := by
+    intro k
+    simp only [idStr, List.getD_eq_getElem?_getD, List.getElem?_replicate]
+    split <;> rfl
+  unfold bitAt; rw [this]; split <;> rfl
+
+theorem bitAt_cons_add_two (q : Q) (g : PStr) (j : Nat) : bitAt (q :: g) (j + 2) = bitAt g j := by
+  unfold bitAt
+  have e1 : (j + 2) % 2 = j % 2 := by omega
+  have e2 : (j + 2) / 2 = j / 2 + 1 := by omega
+  rw [e1, e2]; simp
+
+/-- a string all of whose bits vanish is the identity string -/
+theorem eq_idStr_of_bitAt (g : PStr) (n : Nat) (hl : g.length = n)
+    (h : ∀ j, j < 2 * n → bitAt g j = false) : g = idStr n := by
+  induction g generalizing n with
+  | nil => subst hl; rfl
+  | cons q qs ih =>
+    cases n with
+    | zero => simp at hl
+    | succ n =>
+      have h0 := h 0 (by omega)
+      have h1 := h 1 (by omega)
+      have hq : q = (false, false) := by
+        obtain ⟨x, z⟩ := q
+        simp [bitAt] at h0 h1
+        simp [h0, h1]
+      rw [idStr_succ, hq, ih n (by simpa using hl) (fun j hj => by
+        have := h (j + 2) (by omega); rwa [bitAt_cons_add_two] at this)]
+
+/-- a string that is not the identity anticommutes with some string -/
+theorem exists_anti_of_ne_idStr (w : PStr) (h : w ≠ idStr w.length) :
+    ∃ u : PStr, u.length = w.length ∧ acq u w = 1 := by
+  induction w with
+  | nil => exact absurd rfl h
+  | cons q qs ih =>
+    by_cases hq : q = (false, false)
+    · have hqs : qs ≠ idStr qs.length := by
+        intro e; apply h; rw [List.length_cons, idStr_succ, hq, ← e]
+      obtain ⟨u, hu1, hu2⟩ := ih hqs
+      refine ⟨(false, false) :: u, by simp [hu1], ?_⟩
+      unfold acq at hu2 ⊢
+      rw [acqSum_cons, acqQ_id_left]; omega
+    · obtain ⟨x, z⟩ := q
+      refine ⟨(if x then (false, true) else (true, false)) :: idStr qs.length, by simp [length_idStr], ?_⟩
+      unfold acq
+      rw [acqSum_cons, acqSum_idStr_left]
+      cases x <;> cases z <;> first | exact absurd rfl hq | decide
+
+/-- the product of the strings `F i`, `i < k`, selected by `c` -/
+def combS (n : Nat) (F : Nat → PStr) (c : Nat → Bool) : Nat → PStr
+  | 0 => idStr n
+  | k + 1 => if c k then xorS (combS n F c k) (F k) else combS n F c k
+
+theorem length_combS (n : Nat) (F : Nat → PStr) (c : Nat → Bool) (k : Nat)
+    (hF : ∀ i, i < k → (F i).length = n) : (combS n F c k).length = n := by
+  induction k with
+  | zero => exact length_idStr n
+  | succ k ih =>
+    have ih' := ih (fun i hi => hF i (by omega))
+    simp only [combS]; split
+    · rw [length_xorS_eq _ _ (by rw [ih', hF k (by omega)])]; exact ih'
+    · exact ih'
+
+theorem bitAt_combS (n : Nat) (F : Nat → PStr) (c : Nat → Bool) (k j : Nat)
+    (hF : ∀ i, i < k → (F i).length = n) :
+    bitAt (combS n F c k) j = xsum (fun i => c i && bitAt (F i) j) k := by
+  induction k with
+  | zero => exact bitAt_idStr n j
+  | succ k ih =>
+    have ih' := ih (fun i hi => hF i (by omega))
+    have hl := length_combS n F c k (fun i hi => hF i (by omega))
+    simp only [combS, xsum]; split
+    · next hc => rw [bitAt_xorS _ _ _ (by rw [hl, hF k (by omega)]), ih', hc]; simp
+    · next hc =>
+      have hc' : c k = false := by simpa using hc
+      rw [ih', hc']; simp
+
+/-- pairing a selected product with a string that anticommutes with exactly one factor reads off the
+    coefficient of that factor -/
+theorem acq_combS (n : Nat) (F : Nat → PStr) (c : Nat → Bool) (k t : Nat) (x : PStr)
+    (hF : ∀ i, i < k → (F i).length = n)
+    (hx : ∀ i, i < k → acq (F i) x = if i = t then 1 else 0) :
+    acq (combS n F c k) x = if t < k ∧ c t = true then 1 else 0 := by
+  induction k with
+  | zero => rw [if_neg (by omega)]; exact acq_idStr_left x n
+  | succ k ih =>
+    have ih' := ih (fun i hi => hF i (by omega)) (fun i hi => hx i (by omega))
+    have hl := length_combS n F c k (fun i hi => hF i (by omega))
+    have hk := hx k (by omega)
+    simp only [combS]
+    by_cases hc : c k = true
+    · rw [if_pos hc, acq_xorS_left _ _ _ (by rw [hl, hF k (by omega)]), ih', hk]
+      by_cases e : k = t
+      · subst e
+        rw [if_neg (by omega), if_pos rfl, if_pos ⟨by omega, hc⟩]; rfl
+      · rw [if_neg e]
+        by_cases e2 : t < k ∧ c t = true
+        · rw [if_pos e2, if_pos ⟨by omega, e2.2⟩]; rfl
+        · rw [if_neg e2, if_neg (fun hh => e2 ⟨by omega, hh.2⟩)]; rfl
+    · rw [if_neg hc, ih']
+      by_cases e2 : t < k ∧ c t = true
+      · rw [if_pos e2, if_pos ⟨by omega, e2.2⟩]
+      · rw [if_neg e2, if_neg]
+        intro ⟨h1, h2⟩
+        by_cases e : t = k
+        · subst e; exact hc h2
+        · exact e2 ⟨by omega, h2⟩
+
+/-- **symplectic nondegeneracy**: a string that commutes with all `2n` rows of a tableau with the Gram
+    pattern is the identity string -/
+theorem gram_nondegenerate (n : Nat) (f : Nat → PStr) (h : GramF n f) (w : PStr) (hw : w.length = n)
+    (hz : ∀ i, i < 2 * n → acq (f i) w = 0) : w = idStr n := by
+  apply Classical.byContradiction
+  intro hne
+  obtain ⟨u, hu1, hu2⟩ := exists_anti_of_ne_idStr w (by rw [hw]; exact hne)
+  let F : Nat → PStr := fun i => if i < 2 * n then f i else u
+  have hFl : ∀ i, (F i).length = n := by
+    intro i; simp only [F]; split
+    · next hi => exact h.1 i hi
+    · rw [hu1, hw]
+  have hFlt : ∀ i, i < 2 * n → F i = f i := fun i hi => by simp only [F]; rw [if_pos hi]
+  have hFu : F (2 * n) = u := by simp only [F]; rw [if_neg (by omega)]
+  obtain ⟨c, ⟨i0, hi0, hc0⟩, hc⟩ := exists_dependency (2 * n) (fun i j => bitAt (F i) j)
+  have hS : combS n F c (2 * n + 1) = idStr n := by
+    apply eq_idStr_of_bitAt _ n (length_combS n F c _ (fun i _ => hFl i))
+    intro j hj
+    rw [bitAt_combS n F c _ j (fun i _ => hFl i)]
+    exact hc j hj
+  -- the coefficient of `u` vanishes
+  have hcu : c (2 * n) = false := by
+    have h1 := acq_combS n F c (2 * n + 1) (2 * n) w (fun i _ => hFl i) (fun i hi => by
+      by_cases e : i = 2 * n
+      · rw [e, hFu, hu2, if_pos rfl]
+      · rw [if_neg e, hFlt i (by omega)]; exact hz i (by omega))
+    rw [hS, acq_idStr_left] at h1
+    cases hcc : c (2 * n) with
+    | false => rfl
+    | true => rw [if_pos ⟨by omega, hcc⟩] at h1; exact absurd h1 (by omega)
+  have hS' : combS n F c (2 * n) = idStr n := by
+    have : combS n F c (2 * n + 1) = combS n F c (2 * n) := by
+      simp only [combS]; rw [hcu]; simp
+    rw [← this]; exact hS
+  -- so do the coefficients of the rows
+  have hct : ∀ t, t < 2 * n → c t = false := by
+    intro t ht
+    have hpt := partner_lt n t ht
+    have h1 := acq_combS n F c (2 * n) t (f (partner n t)) (fun i _ => hFl i) (fun i hi => by
+      rw [hFlt i hi, h.2 i _ hi hpt]
+      by_cases e : i = t
+      · rw [if_pos e, e]; exact J_partner n t ht
+      · rw [if_neg e]
+        apply J_of_ne_partner n i _ hi hpt
+        intro e2
+        exact e (partner_inj n t i ht hi e2).symm)
+    rw [hS', acq_idStr_left] at h1
+    cases hcc : c t with
+    | false => rfl
+    | true => rw [if_pos ⟨ht, hcc⟩] at h1; exact absurd h1 (by omega)
+  by_cases e : i0 = 2 * n
+  · rw [e, hcu] at hc0; exact absurd hc0 (by simp)
+  · rw [hct i0 (by omega)] at hc0; exact absurd hc0 (by simp)
+
+end Nondegeneracy
+
+/-! ## §9 the deterministic branch: the accumulated product is the observable -/
+
+theorem scanAcc_cons (T0 : List Pauli) (obs : PStr) (N j : Nat) (row : Pauli) (rest : List Pauli) (acc : Pauli) :
+    scanAcc T0 obs N j (row :: rest) acc =
+      scanAcc T0 obs N (j + 1) rest (if anti row.g obs then mul acc (rowAt T0 (j - N)) else acc) := rfl
+
+/-- the string accumulated by the scan, paired with the rows: when no row below `n + r` anticommutes with the
+    observable, the accumulated product of stabilizers anticommutes with exactly the rows the observable
+    anticommutes with -/
+theorem scanAcc_acq (T0 : List Pauli) (obs : PStr) (n r : Nat) (hl : T0.length = 2 * n)
+    (hg : GramF n (gAt T0)) (hclean : ∀ i, i < n + r → anti (gAt T0 i) obs = false) :
+    ∀ (rows : List Pauli) (j : Nat) (acc : Pauli), j + rows.length = 2 * n →
+      (∀ k, k < rows.length → rowAt rows k = rowAt T0 (j + k)) → acc.g.length = n →
+      (∀ i, i < 2 * n → acq (gAt T0 i) acc.g = if i < j ∧ anti (gAt T0 i) obs = true then 1 else 0) →
+      (scanAcc T0 obs n j rows acc).g.length = n ∧
+      ∀ i, i < 2 * n → acq (gAt T0 i) (scanAcc T0 obs n j rows acc).g
+        = if anti (gAt T0 i) obs = true then 1 else 0 := by
+  intro rows
+  induction rows with
+  | nil =>
+    intro j acc hj _ hal hacc
+    refine ⟨hal, fun i hi => ?_⟩
+    simp only [List.length_nil] at hj
+    rw [show scanAcc T0 obs n j [] acc = acc from rfl, hacc i hi]
+    by_cases ha : anti (gAt T0 i) obs = true
+    · rw [if_pos ⟨by omega, ha⟩, if_pos ha]
+    · rw [if_neg (fun hh => ha hh.2), if_neg ha]
+  | cons row rest ih =>
+    intro j acc hj hrows hal hacc
+    simp only [List.length_cons] at hj
+    have hrow : row = rowAt T0 j := by
+      have := hrows 0 (by simp)
+      rwa [rowAt_cons_zero, Nat.add_zero] at this
+    have hrest : ∀ k, k < rest.length → rowAt rest k = rowAt T0 (j + 1 + k) := by
+      intro k hk
+      have := hrows (k + 1) (by simp; omega)
+      rw [rowAt_cons_succ] at this
+      rw [this]; congr 1; omega
+    rw [scanAcc_cons]
+    by_cases ha : anti row.g obs = true
+    · rw [if_pos ha]
+      have haj : anti (gAt T0 j) obs = true := by rw [hrow] at ha; exact ha
+      have hjn : n + r ≤ j := by
+        apply Classical.byContradiction
+        intro hlt
+        rw [hclean j (by omega)] at haj; exact absurd haj (by simp)
+      have hsl : (gAt T0 (j - n)).length = n := hg.1 _ (by omega)
+      apply ih (j + 1) _ (by omega) hrest
+      · rw [mul_g, length_xorS_eq _ _ (by rw [hal]; exact hsl.symm)]; exact hal
+      · intro i hi
+        rw [mul_g, acq_xorS_right _ _ _ (by rw [hal]; exact hsl.symm), hacc i hi]
+        have hJ : acq (gAt T0 i) (rowAt T0 (j - n)).g = if i = j then 1 else 0 := by
+          have := hg.2 i (j - n) hi (by omega)
+          unfold gAt at this ⊢
+          rw [this]; unfold J; split <;> split <;> omega
+        rw [hJ]
+        by_cases e : i = j
+        · subst e
+          rw [if_neg (by omega), if_pos rfl, if_pos ⟨by omega, haj⟩]; rfl
+        · rw [if_neg e]
+          by_cases e2 : i < j ∧ anti (gAt T0 i) obs = true
+          · rw [if_pos e2, if_pos ⟨by omega, e2.2⟩]; rfl
+          · rw [if_neg e2, if_neg (fun hh => e2 ⟨by omega, hh.2⟩)]; rfl
+    · rw [if_neg ha]
+      have haj : ¬ anti (gAt T0 j) obs = true := by rw [hrow] at ha; exact ha
+      apply ih (j + 1) acc (by omega) hrest hal
+      intro i hi
+      rw [hacc i hi]
+      by_cases e2 : i < j ∧ anti (gAt T0 i) obs = true
+      · rw [if_pos e2, if_pos ⟨by omega, e2.2⟩]
+      · rw [if_neg e2, if_neg]
+        intro ⟨h1, h2⟩
+        by_cases e : i = j
+        · subst e; exact haj h2
+        · exact e2 ⟨by omega, h2⟩
+
+/-- **the assertion of the deterministic branch holds**: under the invariant, if no row below `n + r`
+    anticommutes with the observable, the accumulated stabilizer product has the string of the observable -/
+theorem scanAcc_g_eq_obs (st : State) (n : Nat) (obs : PStr) (h : TabInv st n) (ho : obs.length = n)
+    (hclean : ∀ i, i < n + st.r → anti (gAt st.rows i) obs = false) :
+    (scanAcc st.rows obs n 0 st.rows ⟨idStr n, 0⟩).g = obs := by
+  obtain ⟨hl, _, hg, _⟩ := (tabInv_iff st n).1 h
+  obtain ⟨h1, h2⟩ := scanAcc_acq st.rows obs n st.r hl hg hclean st.rows 0 ⟨idStr n, 0⟩ (by omega)
+    (fun k _ => by rw [Nat.zero_add]) (length_idStr n)
+    (fun i _ => by rw [acq_idStr_right, if_neg (by omega)])
+  have hz : xorS (scanAcc st.rows obs n 0 st.rows ⟨idStr n, 0⟩).g obs = idStr n := by
+    apply gram_nondegenerate n (gAt st.rows) hg _ (by rw [length_xorS_eq _ _ (by rw [h1, ho])]; exact h1)
+    intro i hi
+    rw [acq_xorS_right _ _ _ (by rw [h1, ho]), h2 i hi]
+    by_cases ha : anti (gAt st.rows i) obs = true
+    · rw [if_pos ha, (anti_iff _ _).1 ha]; rfl
+    · rw [if_neg ha, (anti_eq_false_iff _ _).1 (by simpa using ha)]; rfl
+  have := xorS_cancel_right (scanAcc st.rows obs n 0 st.rows ⟨idStr n, 0⟩).g obs (by rw [h1, ho])
+  have e : xorS (idStr n) obs = obs := by rw [← ho]; exact xorS_idStr_left obs
+  rw [hz, e] at this
+  exact this.symm
+
+/-- under the invariant, measuring never trips the internal assertion -/
+theorem measure1_total (st : State) (n : Nat) (obs : Pauli) (coin : Bool)
+    (h : TabInv st n) (ho : obs.g.length = n) :
+    ∃ res, measure1 st obs coin = .ok res := by
+  have hN := h.N_eq
+  rcases measure1_cases st obs coin with ⟨p, _, he⟩ | ⟨hc, he⟩
+  · exact ⟨_, he⟩
+  · rw [hN] at hc he
+    rw [he, if_pos (scanAcc_g_eq_obs st n obs.g h ho hc)]
+    exact ⟨_, rfl⟩
 
 end PC
